@@ -6,7 +6,11 @@ Model: `Earverif/Model/Adm.lean`, `Earverif/Model/SelectItems.lean` (translitera
 `specItem`, `specSelect`) and the property theorems.  Helper lemmas: `Proofs/C06.lean`.
 -/
 import Earverif.Proofs.C06
+import Earverif.Proofs.C06Spec
+import Earverif.Proofs.C06WF
 import Earverif.Props.C07
+import Earverif.Props.C20
+import Earverif.Proofs.C14Empty
 
 namespace Earverif.Adm
 
@@ -923,14 +927,6 @@ theorem select_programme_order_independent {a a' : Adm} (hp : a'.programmes.Perm
 
 /-! ## select_perm for re-numbering the audioObjects (declaration order) -/
 
-theorem flatMap_congr' {α β : Type} {l : List α} {f g : α → List β} (h : ∀ x ∈ l, f x = g x) :
-    l.flatMap f = l.flatMap g := by
-  induction l with
-  | nil => rfl
-  | cons x xs ih =>
-    simp only [List.flatMap_cons, h x (List.mem_cons_self ..)]
-    rw [ih fun y hy => h y (List.mem_cons_of_mem _ hy)]
-
 theorem Chain.all_lt {ch : Nat → List Nat} {n : Nat} (hlt : ∀ i, i < n → ∀ x ∈ ch i, x < n) {r p}
     (h : Chain ch r p) (hr : r < n) : ∀ o ∈ p, o < n := by
   induction h with
@@ -1607,12 +1603,6 @@ def renWid (m : FmtMaps) (i : Nat) : Nat := 3 * m.σP (i / 3) + i % 3
 def renW (m : FmtMaps) (w : WPack) : WPack :=
   ⟨renWid m w.id, w.kind, m.σP w.root, w.channels.map (renCh m)⟩
 
-/-- one step of `get_wrapped_packs`. -/
-def wrapOne (f : Formats) (p : Nat) : Except Err (List WPack) :=
-  if (f.pack p).type ≠ 2 then .ok [wrapRegular f p] else wrapMatrix f p
-
-theorem wrappedPacks_eq (f : Formats) : wrappedPacks f = flatMapE (wrapOne f) (List.range f.packs.length) := rfl
-
 namespace FmtRenamed
 variable {m : FmtMaps} {a a' : Adm}
 
@@ -1718,14 +1708,17 @@ theorem filled_renSol (m : FmtMaps) (sol : PackAlloc.Sol) :
     | none => exact ih
     | some t => exact congrArg (Option.map (renTrack m) t :: ·) ih
 
+theorem filterMap_id_map {α β : Type} (g : α → β) : ∀ l : List (Option α),
+    (l.map (Option.map g)).filterMap id = (l.filterMap id).map g
+  | [] => rfl
+  | none :: xs => filterMap_id_map g xs
+  | some x :: xs => congrArg (g x :: ·) (filterMap_id_map g xs)
+
 theorem realTracks_renSol (m : FmtMaps) (sol : PackAlloc.Sol) :
     PackAlloc.realTracks (sol.map (renAllocated m)) = (PackAlloc.realTracks sol).map (renTrack m) := by
   unfold PackAlloc.realTracks
   rw [filled_renSol]
-  generalize PackAlloc.filled sol = l
-  induction l with
-  | nil => rfl
-  | cons t rest ih => cases t <;> simp [ih]
+  exact filterMap_id_map _ _
 
 theorem numSilentIn_renSol (m : FmtMaps) (sol : PackAlloc.Sol) :
     PackAlloc.numSilentIn (sol.map (renAllocated m)) = PackAlloc.numSilentIn sol := by
@@ -2286,12 +2279,6 @@ theorem outputOf_bounds {f : Formats} (hok : FmtRefsOK f) {uids : List Nat} {al 
 /-- track references of audioObjects are in range. -/
 def ObjTracksOK (a : Adm) : Prop := ∀ i u, some u ∈ (a.obj i).tracks → u < a.fmt.trackUIDs.length
 
-theorem filterMap_id_map {α β : Type} (g : α → β) : ∀ l : List (Option α),
-    (l.map (Option.map g)).filterMap id = (l.filterMap id).map g
-  | [] => rfl
-  | none :: xs => by simp [filterMap_id_map g xs]
-  | some x :: xs => by simp [filterMap_id_map g xs]
-
 theorem FmtRenamed.allocProblem {m : FmtMaps} {a a' : Adm} (h : FmtRenamed m a a') (hto : ObjTracksOK a)
     (st : State) {p : List Nat} (hp : st.objPath = some p) {wps wps' : List WPack}
     (hw : wps'.Perm (wps.map (renW m))) :
@@ -2556,12 +2543,6 @@ theorem select_perm_formats_partial {m : FmtMaps} {a a' : Adm} (h : FmtRenamed m
 
 /-! ### `rename` form and the well-formedness hypothesis made checkable -/
 
-theorem nodup_of_nodup_map {α β : Type} (f : α → β) : ∀ {l : List α}, (l.map f).Nodup → l.Nodup
-  | [], _ => List.nodup_nil
-  | x :: xs, h => by
-    simp only [List.map_cons, List.nodup_cons] at h ⊢
-    exact ⟨fun hx => h.1 (List.mem_map.2 ⟨x, hx, rfl⟩), nodup_of_nodup_map f h.2⟩
-
 /-- the part of `PackAlloc.WF` that depends on the `AllocationPack`s only (decidable on a concrete
 document). -/
 def PacksWF (wps : List WPack) : Prop :=
@@ -2705,6 +2686,1515 @@ theorem select_perm_formats_rename_partial {m mi : FmtMaps} {a : Adm} (hwf : a.r
     items'.Perm (items.map (renItemF m)) :=
   select_perm_formats_partial (renameFormats_renamed hwf hP hC hU hiP hiC hiU) hwf hne
     (allocWF_of_check hcheck) given sel hs hs'
+
+section Declarative
+open Earverif.TrackSpec (MChan packSpec meaning vsum delayOpt scaleOpt)
+
+/-! ## C07's well-formedness of the allocation problems, derived from the multitree check -/
+
+/-- the `AllocationTrackUID`s of a state are distinct objects (identified by their position). -/
+theorem allocProblem_tracks_nodup (a : Adm) (st : State) (wps : List WPack) :
+    (allocProblem a st wps).1.tracks.Nodup := by
+  apply nodup_of_nodup_map (·.id)
+  simp only [allocProblem, List.map_map]
+  have : ∀ l : List Nat, (l.zipIdx.map ((fun (t : PackAlloc.Track) => t.id) ∘ fun ui =>
+      (⟨ui.2, trackChannel a.fmt ui.1, (a.fmt.uid ui.1).pack⟩ : PackAlloc.Track))) = List.range' 0 l.length := by
+    intro l
+    rw [← List.zipIdx_map_snd 0 l]
+    rfl
+  rw [this]
+  exact List.nodup_range' 1
+
+theorem allocProblem_packs (a : Adm) (st : State) (wps : List WPack) :
+    (allocProblem a st wps).1.packs = wps.map fun w => (⟨w.id, w.root, w.channels⟩ : PackAlloc.Pack) := rfl
+
+/-- **packsWF_of_multitree**: the `AllocationPack` part of C07's `WF`, from the multitree check
+(`cf_nodup`), by construction (`packs_nodup`) and from `wrappedNonempty` (`nonempty`; this one is NOT
+established by `validate_structure`). -/
+theorem packsWF_of_multitree {f : Formats} (hmt : multitreeOK f = true) (hne : wrappedNonempty f = true)
+    {wps : List WPack} (hw : wrappedPacks f = .ok wps) : PacksWF wps := by
+  refine ⟨?_, (wrappedNonempty_iff hw).1 hne, wrappedPacks_cf_nodup hmt hw⟩
+  apply nodup_of_nodup_map (·.id)
+  rw [List.map_map]
+  exact wrappedPacks_ids_nodup hw
+
+/-- **allocWF_of_multitree**: C07's well-formedness of every allocation problem of the document
+(`AllocWF`, the hypothesis of `select_perm_formats_partial` and of C07's completeness / uniqueness
+theorems) follows from `multitreeOK` (what `_validate_pack_channel_multitree` checks) and
+`wrappedNonempty`. -/
+theorem allocWF_of_multitree {a : Adm} (hmt : multitreeOK a.fmt = true) (hne : wrappedNonempty a.fmt = true) :
+    AllocWF a :=
+  allocWF_of_packsWF fun _ hw => packsWF_of_multitree hmt hne hw
+
+theorem allocWFCheck_of_multitree {a : Adm} (hmt : multitreeOK a.fmt = true) (hne : wrappedNonempty a.fmt = true) :
+    allocWFCheck a = true := by
+  unfold allocWFCheck
+  cases hw : wrappedPacks a.fmt with
+  | error e => rfl
+  | ok wps => exact decide_eq_true (packsWF_of_multitree hmt hne hw)
+
+/-- C07's `WF` of the problems the allocator effectively solves: `allocate_packs` never allocates an
+`AllocationPack` without channels (`PackAlloc.selectPackMapping_dropEmpty`, Proofs/C14Empty.lean), so these
+can be dropped from the problem. -/
+def AllocWF0 (a : Adm) : Prop :=
+  ∀ wps st, wrappedPacks a.fmt = .ok wps → PackAlloc.WF (PackAlloc.dropEmpty (allocProblem a st wps).1)
+
+/-- **allocWF0_of_multitree**: without any hypothesis besides the multitree check. -/
+theorem allocWF0_of_multitree {a : Adm} (hmt : multitreeOK a.fmt = true) : AllocWF0 a := by
+  intro wps st hw
+  have hmem : ∀ p ∈ (PackAlloc.dropEmpty (allocProblem a st wps).1).packs,
+      PackAlloc.hasChannels p = true ∧ ∃ w ∈ wps, p = ⟨w.id, w.root, w.channels⟩ := by
+    intro p hp
+    simp only [PackAlloc.dropEmpty, List.mem_filter, allocProblem_packs, List.mem_map] at hp
+    obtain ⟨⟨w, hwm, rfl⟩, hc⟩ := hp
+    exact ⟨hc, w, hwm, rfl⟩
+  refine ⟨?_, allocProblem_tracks_nodup a st wps, ?_, ?_⟩
+  · refine nodup_filter _ ?_
+    rw [allocProblem_packs]
+    apply nodup_of_nodup_map (·.id)
+    rw [List.map_map]
+    exact wrappedPacks_ids_nodup hw
+  · intro p hp hnil
+    have := (hmem p hp).1
+    simp [PackAlloc.hasChannels, hnil] at this
+  · intro p hp
+    obtain ⟨_, w, hwm, rfl⟩ := hmem p hp
+    exact wrappedPacks_cf_nodup hmt hw w hwm
+
+theorem allocWF0_of_allocWF {a : Adm} (h : AllocWF a) : AllocWF0 a := by
+  intro wps st hw
+  obtain ⟨h1, h2, h3, h4⟩ := h wps st hw
+  exact ⟨nodup_filter _ h1, h2, fun p hp => h3 p (List.mem_filter.1 hp).1, fun p hp => h4 p (List.mem_filter.1 hp).1⟩
+
+/-- valid allocations of the reduced problem = valid allocations that use no `AllocationPack` without
+channels. -/
+theorem valid_dropEmpty_iff' (prob : PackAlloc.Problem) (sol : PackAlloc.Sol) :
+    PackAlloc.Valid (PackAlloc.dropEmpty prob) sol ↔
+      PackAlloc.Valid prob sol ∧ ∀ al ∈ sol, al.pack.channels ≠ [] := by
+  constructor
+  · intro h
+    refine ⟨⟨fun al ha => (List.mem_filter.mp (h.packs_mem al ha)).1, h.channels, h.complete, h.tracks, h.silent,
+      h.compat, h.refs⟩, ?_⟩
+    intro al ha hnil
+    have := (List.mem_filter.mp (h.packs_mem al ha)).2
+    simp [PackAlloc.hasChannels, hnil] at this
+  · rintro ⟨h, hne⟩
+    refine ⟨fun al ha => List.mem_filter.mpr ⟨h.packs_mem al ha, ?_⟩, h.channels, h.complete, h.tracks, h.silent,
+      h.compat, h.refs⟩
+    have := hne al ha
+    simpa [PackAlloc.hasChannels] using this
+
+/-! ## the items of a state, declaratively (valid + unique allocation, track / silence / matrix sum) -/
+
+/-- the items of a state, given the allocation `sol`: for every allocated pack its declarative output pack
+and channel allocation (`declOutput`: regular pack → itself with each channel's track or silence; matrix
+pack → its outputPackFormat with the matrix sums), and for that one item per channel / one HOA item
+(`declItems`). -/
+def declItemsOfSol (a : Adm) (st : State) (uids : List Nat) (sol : PackAlloc.Sol) : List Item :=
+  sol.flatMap fun al => declItems a st (declOutput a.fmt uids al)
+
+/-- the declarative per-channel item is the `specItem` of the comprehension `specSelect`, at the channel's
+unique pack path and the absoluteDistance set along it. -/
+theorem declSingle_eq_specItem (a : Adm) (st : State) (p : Nat) (ct : Nat × TSpec) :
+    declSingle a st p ct =
+      specItem a st (a.fmt.pack p).type (thePackPath a.fmt p ct.1) ct
+        (firstSome (absDistAlong a.fmt (thePackPath a.fmt p ct.1))) := rfl
+
+/-- for a regular (non-matrix) allocated pack, spelled out: one `specItem` per `(channel, slot)` entry of the
+allocation, with track `direct (trackIndex − 1)` of the slot's audioTrackUID or `silent`. -/
+theorem declItems_regular (a : Adm) (st : State) (uids : List Nat) (al : PackAlloc.Allocated)
+    (hty : (a.fmt.pack al.pack.root).type = 1 ∨ (a.fmt.pack al.pack.root).type = 3) :
+    declItems a st (declOutput a.fmt uids al) =
+      al.allocation.map fun cs =>
+        specItem a st (a.fmt.pack al.pack.root).type (thePackPath a.fmt al.pack.root cs.1.cf)
+          (cs.1.cf, slotTrack a.fmt uids cs.2)
+          (firstSome (absDistAlong a.fmt (thePackPath a.fmt al.pack.root cs.1.cf))) := by
+  have h2 : (a.fmt.pack al.pack.root).type ≠ 2 := by rcases hty with h | h <;> omega
+  have h4 : (a.fmt.pack al.pack.root).type ≠ 4 := by rcases hty with h | h <;> omega
+  unfold declOutput declItems
+  rw [if_pos h2]
+  simp only [h4, if_false, inputAlloc, List.map_map]
+  rfl
+
+/-- **itemsOfState_spec**: when the per-state pipeline `select_pack_mapping` → `_get_rendering_items`
+succeeds, there is a valid allocation (C07 `Valid`) of the state's tracks to the `AllocationPack`s, it is
+the only one up to `≈` among the allocations that use no channel-less `AllocationPack`, every entry of it
+is usable (`OutputOK`), and the items are the declarative items of that allocation. -/
+theorem itemsOfState_spec {a : Adm} {st : State} {its : List Item} (h : itemsOfState a st = .ok its)
+    (hwf : AllocWF0 a) :
+    ∃ wps sol, wrappedPacks a.fmt = .ok wps ∧
+      PackAlloc.Valid (allocProblem a st wps).1 sol ∧ (∀ al ∈ sol, al.pack.channels ≠ []) ∧
+      (∀ sol', PackAlloc.Valid (allocProblem a st wps).1 sol' → (∀ al ∈ sol', al.pack.channels ≠ []) →
+        PackAlloc.SolEquiv sol sol') ∧
+      (∀ al ∈ sol, OutputOK a.fmt (allocProblem a st wps).2 al) ∧
+      its = declItemsOfSol a st (allocProblem a st wps).2 sol := by
+  unfold itemsOfState at h
+  cases hm : selectPackMapping a st with
+  | error e => simp [hm] at h
+  | ok packs =>
+    simp only [hm] at h
+    unfold selectPackMapping at hm
+    cases hw : wrappedPacks a.fmt with
+    | error e => simp [hw] at hm
+    | ok wps =>
+      simp only [hw] at hm
+      cases hsel : PackAlloc.selectPackMapping (allocProblem a st wps).1 with
+      | conflicting => simp [hsel] at hm
+      | ambiguous => simp [hsel] at hm
+      | accepted sol =>
+        simp only [hsel] at hm
+        have hsel' := hsel
+        rw [← PackAlloc.selectPackMapping_dropEmpty] at hsel'
+        obtain ⟨hv, hu⟩ := PackAlloc.select_accepted_unique _ (hwf wps st hw) sol hsel'
+        obtain ⟨hv1, hv2⟩ := (valid_dropEmpty_iff' _ _).1 hv
+        obtain ⟨hok, rfl⟩ := (mapE_ok_iff_of_pointwise (outputOf_ok_iff a.fmt (allocProblem a st wps).2) sol packs).1 hm
+        refine ⟨wps, sol, rfl, hv1, hv2, fun sol' hv' hne' => hu sol' ((valid_dropEmpty_iff' _ _).2 ⟨hv', hne'⟩),
+          hok, ?_⟩
+        obtain ⟨hall, rfl⟩ := (flatMapE_ok_iff _ _ _).1 h
+        unfold declItemsOfSol
+        rw [List.flatMap_map]
+        refine flatMap_congr' fun al hal => ?_
+        obtain ⟨zs, hzs⟩ := hall _ (List.mem_map.2 ⟨al, hal, rfl⟩)
+        simp only [okVal, hzs]
+        exact (itemsOfPack_eq_decl hzs).1
+
+/-- with C07's full well-formedness (`AllocWF`, i.e. also no channel-less `AllocationPack`): the valid
+allocation is unique up to `≈` among all valid allocations. -/
+theorem itemsOfState_spec_wf {a : Adm} {st : State} {its : List Item} (h : itemsOfState a st = .ok its)
+    (hwf : AllocWF a) :
+    ∃ wps sol, wrappedPacks a.fmt = .ok wps ∧
+      PackAlloc.Valid (allocProblem a st wps).1 sol ∧
+      (∀ sol', PackAlloc.Valid (allocProblem a st wps).1 sol' → PackAlloc.SolEquiv sol sol') ∧
+      (∀ al ∈ sol, OutputOK a.fmt (allocProblem a st wps).2 al) ∧
+      its = declItemsOfSol a st (allocProblem a st wps).2 sol := by
+  obtain ⟨wps, sol, hw, hv, _, hu, hok, hits⟩ := itemsOfState_spec h (allocWF0_of_allocWF hwf)
+  refine ⟨wps, sol, hw, hv, fun sol' hv' => hu sol' hv' fun al hal => ?_, hok, hits⟩
+  exact (hwf wps st hw).nonempty _ (hv'.packs_mem al hal)
+
+/-- the items do not depend on which valid allocation is taken, up to order. -/
+theorem declItemsOfSol_perm (a : Adm) (st : State) (uids : List Nat) {sol sol' : PackAlloc.Sol}
+    (h : PackAlloc.SolEquiv sol sol') : (declItemsOfSol a st uids sol).Perm (declItemsOfSol a st uids sol') :=
+  List.Perm.flatMap_right _ h
+
+/-! ## the whole selection, declaratively -/
+
+/-- the audioTrackUIDs a state selects: the real tracks of the leaf object, in the order of its
+audioTrackUIDRef list; all audioTrackUIDs of the document in CHNA-only mode. -/
+def stateUids (a : Adm) (st : State) : List Nat :=
+  match st.objPath with
+  | some p => (a.obj (p.getLastD 0)).tracks.filterMap id
+  | none => List.range a.fmt.trackUIDs.length
+
+theorem allocProblem_uids (a : Adm) (st : State) (wps : List WPack) :
+    (allocProblem a st wps).2 = stateUids a st := by
+  unfold allocProblem stateUids
+  cases st.objPath <;> rfl
+
+theorem length_sub_filterMap_id {α : Type} [DecidableEq α] (l : List (Option α)) :
+    l.length - (l.filterMap id).length = l.count none := by
+  induction l with
+  | nil => rfl
+  | cons x xs ih =>
+    have hle : (xs.filterMap id).length ≤ xs.length := List.length_filterMap_le _ _
+    cases x with
+    | none =>
+      have e : (none :: xs).filterMap id = xs.filterMap id := by simp
+      rw [e, List.count_cons_self, List.length_cons]
+      omega
+    | some u =>
+      have e : (some u :: xs).filterMap id = u :: xs.filterMap id := by simp
+      have c : List.count none (some u :: xs) = List.count none xs := by rw [List.count_cons]; simp
+      rw [e, c, List.length_cons, List.length_cons]
+      omega
+
+/-- the allocation problem of a state, field by field (`get_selected_packs_tracks_silent`): the
+`AllocationPack`s of the document; one `AllocationTrackUID` per selected audioTrackUID with its channel
+format and referenced pack; the leaf object's pack references and number of silent tracks (none in
+CHNA-only mode). -/
+theorem allocProblem_fields (a : Adm) (st : State) (wps : List WPack) :
+    (allocProblem a st wps).1.packs = wps.map (fun w => (⟨w.id, w.root, w.channels⟩ : PackAlloc.Pack)) ∧
+    (allocProblem a st wps).1.tracks = (stateUids a st).zipIdx.map
+      (fun ui => (⟨ui.2, trackChannel a.fmt ui.1, (a.fmt.uid ui.1).pack⟩ : PackAlloc.Track)) ∧
+    (allocProblem a st wps).1.packRefs = (st.leaf a).map (·.packs) ∧
+    (allocProblem a st wps).1.numSilent = ((st.leaf a).map fun o => o.tracks.count none).getD 0 := by
+  unfold allocProblem stateUids State.leaf
+  cases st.objPath with
+  | none => exact ⟨rfl, rfl, rfl, rfl⟩
+  | some p =>
+    refine ⟨rfl, rfl, rfl, ?_⟩
+    simp only [Option.map_some, Option.getD_some]
+    exact length_sub_filterMap_id _
+
+theorem exists_fun_of_forall_mem {α β : Type} [Inhabited β] {l : List α} {P : α → β → Prop}
+    (h : ∀ x ∈ l, ∃ y, P x y) : ∃ f : α → β, ∀ x ∈ l, P x (f x) := by
+  classical
+  refine ⟨fun x => if hx : x ∈ l then Classical.choose (h x hx) else default, fun x hx => ?_⟩
+  simp only [hx, dif_pos]
+  exact Classical.choose_spec (h x hx)
+
+/-- **select_eq_decl**: on a document that passes the multitree check, whenever
+`select_rendering_items` returns, its result is the comprehension
+`[ item | state ∈ specStates, allocated pack ∈ the valid allocation of the state, item ∈ declItems ]`
+where the state enumeration (`specStates`), "valid allocation" (C07's `Valid`, unique up to `≈`), the
+output pack / track specs (`declOutput`: track index − 1, silence, or the matrix sum) and the per-channel
+items (`declItems`: `declSingle`, `declHoa`) are all declarative: none of them calls the model's
+`selectPackMapping`, `outputOf`, `itemsOfPack`. -/
+theorem select_eq_decl {a : Adm} {given : Option Nat} {sel : List Nat} {items : List Item}
+    (h : selectRenderingItems a given sel = .ok items) (hmt : multitreeOK a.fmt = true) :
+    ∃ wps ign, wrappedPacks a.fmt = .ok wps ∧ selectComplementary a sel = .ok ign ∧
+      ∃ alloc : State → PackAlloc.Sol,
+        (∀ st ∈ specStates a (selectProgramme a given) ign,
+          PackAlloc.Valid (allocProblem a st wps).1 (alloc st) ∧ (∀ al ∈ alloc st, al.pack.channels ≠ []) ∧
+          (∀ sol', PackAlloc.Valid (allocProblem a st wps).1 sol' → (∀ al ∈ sol', al.pack.channels ≠ []) →
+            PackAlloc.SolEquiv (alloc st) sol') ∧
+          ∀ al ∈ alloc st, OutputOK a.fmt (stateUids a st) al) ∧
+        items = (specStates a (selectProgramme a given) ign).flatMap fun st =>
+          declItemsOfSol a st (stateUids a st) (alloc st) := by
+  rw [select_eq_spec] at h
+  unfold specSelect at h
+  cases hw : wrappedPacks a.fmt with
+  | error e => simp [hw] at h
+  | ok wps =>
+    cases hc : selectComplementary a sel with
+    | error e => simp [hw, hc] at h
+    | ok ign =>
+      simp only [hw, hc] at h
+      have h' : flatMapE (itemsOfState a) (specStates a (selectProgramme a given) ign) = .ok items := h
+      obtain ⟨hall, rfl⟩ := (flatMapE_ok_iff _ _ _).1 h'
+      have key : ∀ st ∈ specStates a (selectProgramme a given) ign, ∃ sol : PackAlloc.Sol,
+          (PackAlloc.Valid (allocProblem a st wps).1 sol ∧ (∀ al ∈ sol, al.pack.channels ≠ []) ∧
+          (∀ sol', PackAlloc.Valid (allocProblem a st wps).1 sol' → (∀ al ∈ sol', al.pack.channels ≠ []) →
+            PackAlloc.SolEquiv sol sol') ∧
+          ∀ al ∈ sol, OutputOK a.fmt (stateUids a st) al) ∧
+          okVal (itemsOfState a) st = declItemsOfSol a st (stateUids a st) sol := by
+        intro st hst
+        obtain ⟨its, hits⟩ := hall st hst
+        obtain ⟨wps', sol, hw', hv, hne, hu, hok, rfl⟩ := itemsOfState_spec hits (allocWF0_of_multitree hmt)
+        rw [hw] at hw'
+        cases hw'
+        rw [allocProblem_uids] at hok
+        refine ⟨sol, ⟨hv, hne, hu, hok⟩, ?_⟩
+        simp [okVal, hits, allocProblem_uids]
+      obtain ⟨alloc, halloc⟩ := exists_fun_of_forall_mem key
+      refine ⟨wps, ign, rfl, rfl, alloc, fun st hst => (halloc st hst).1, ?_⟩
+      exact flatMap_congr' fun st hst => (halloc st hst).2
+
+/-! ## the audio of the track spec of a matrix item (C20's `matrix_pack_spec_meaning`) -/
+
+/-- a matrix channel that is itself in the input allocation (matrix already applied: "pre-applied" use)
+is fed by its own track. -/
+theorem matrixTrack_input {f : Formats} {inputs : List (Nat × TSpec)} {mc : Nat} {x : Nat × TSpec}
+    (h : inputs.find? (·.1 == mc) = some x) : matrixTrack f inputs mc = x.2 := by
+  unfold matrixTrack
+  rw [toMChan_input h]
+  exact packSpec_input _
+
+/-- **matrixTrack_meaning**: the audio (C20 `meaning`) of the track spec of a matrix channel that is not
+in the input allocation is the matrix sum: over the coefficients of its block format, the audio of the
+coefficient's input channel (recursively `packSpec` of its tree), scaled by the coefficient gain and
+delayed by the coefficient delay, all scaled by the block format gain — C20's
+`matrix_pack_spec_meaning`, applied to the spec the C06 model builds. -/
+theorem matrixTrack_meaning {f : Formats} {inputs : List (Nat × TSpec)} {mc : Nat}
+    (hin : inputs.find? (·.1 == mc) = none)
+    (hsome : (toMChan f inputs (f.channels.length + 1) mc).isSome = true) (fs : Int) (nch : Nat)
+    (x : List (List Rat)) :
+    ∃ cs, mapO (coeffMChan f inputs f.channels.length) (f.chan mc).matrix.coeffs = some cs ∧
+      meaning fs nch (matrixTrack f inputs mc) x =
+        (vsum x.length (cs.map fun c =>
+          delayOpt fs c.2.2 (scaleOpt c.2.1 (meaning fs nch (packSpec c.1) x)))).map (· * (f.chan mc).matrix.gain) := by
+  obtain ⟨m, hm⟩ := Option.isSome_iff_exists.1 hsome
+  obtain ⟨_, cs, hcs, rfl⟩ := toMChan_matrix hm hin
+  refine ⟨cs, hcs, ?_⟩
+  unfold matrixTrack
+  rw [hm]
+  exact Earverif.TrackSpec.matrix_pack_spec_meaning fs nch cs _ x
+
+/-- **matrix_item_spec_meaning**: every channel of the output pack of an allocated matrix pack is the
+`outputChannelFormat` of a channel `mc` of the matrix pack, fed by that channel's track (if the tracks
+carry the matrix channels) or by the matrix sum over the input allocation. -/
+theorem matrix_item_spec_meaning {f : Formats} {uids : List Nat} {al : PackAlloc.Allocated} {ap : AllocPack}
+    (h : outputOf f uids al = .ok ap) (hty : (f.pack al.pack.root).type = 2) :
+    ∀ ct ∈ ap.alloc, ∃ mc ∈ (f.pack al.pack.root).channels,
+      ct = (matrixOut f mc, matrixTrack f (inputAlloc f uids al) mc) ∧
+      ((∃ x, (inputAlloc f uids al).find? (·.1 == mc) = some x ∧ ct.2 = x.2) ∨
+       ((inputAlloc f uids al).find? (·.1 == mc) = none ∧ ∀ (fs : Int) (nch : Nat) (x : List (List Rat)),
+          ∃ cs, mapO (coeffMChan f (inputAlloc f uids al) f.channels.length) (f.chan mc).matrix.coeffs = some cs ∧
+            meaning fs nch ct.2 x =
+              (vsum x.length (cs.map fun c =>
+                delayOpt fs c.2.2 (scaleOpt c.2.1 (meaning fs nch (packSpec c.1) x)))).map
+                  (· * (f.chan mc).matrix.gain))) := by
+  obtain ⟨hok, rfl⟩ := (outputOf_ok_iff f uids al ap).1 h
+  have hne : ¬ (f.pack al.pack.root).type ≠ 2 := by omega
+  intro ct hct
+  unfold declOutput at hct
+  rw [if_neg hne] at hct
+  obtain ⟨mc, hmc, rfl⟩ := List.mem_map.1 hct
+  refine ⟨mc, hmc, rfl, ?_⟩
+  cases hfind : (inputAlloc f uids al).find? (·.1 == mc) with
+  | some x => exact Or.inl ⟨x, rfl, matrixTrack_input hfind⟩
+  | none =>
+    exact Or.inr ⟨rfl, fun fs nch x => matrixTrack_meaning hfind ((hok.2 hty).2 mc hmc).2 fs nch x⟩
+
+/-! ## side facts: the declarative items are well defined -/
+
+/-- whenever `_get_rendering_items` returns for an allocated output pack: every allocated channel lies on
+exactly one pack path below the pack (`thePackPath` is THE path), the absoluteDistance values set along
+that path agree, and for HOA the merged parameters exist (`hoaMetaOf_ok_iff`: all channels agree). -/
+theorem itemsOfPack_ok_facts {a : Adm} {st : State} {ap : AllocPack} {its : List Item}
+    (h : itemsOfPack a st ap = .ok its) :
+    (∀ ct ∈ ap.alloc,
+      thePackPath a.fmt ap.pack ct.1 ∈ packPathsFrom a.fmt ap.pack ∧
+      ct.1 ∈ (a.fmt.pack ((thePackPath a.fmt ap.pack ct.1).getLastD 0)).channels ∧
+      (∀ q ∈ packPathsFrom a.fmt ap.pack, ct.1 ∈ (a.fmt.pack (q.getLastD 0)).channels →
+        q = thePackPath a.fmt ap.pack ct.1) ∧
+      ∀ x, some x ∈ absDistAlong a.fmt (thePackPath a.fmt ap.pack ct.1) →
+        firstSome (absDistAlong a.fmt (thePackPath a.fmt ap.pack ct.1)) = some x) ∧
+    ((a.fmt.pack ap.pack).type = 4 →
+      ∃ hm ad, hoaMetaOf a.fmt (packPathsChannels a.fmt ap) = .ok hm ∧
+        ap.alloc ≠ [] ∧ ∀ ct ∈ ap.alloc, getPathParam (absDistAlong a.fmt (thePackPath a.fmt ap.pack ct.1)) = .ok ad) := by
+  have hpath : ∀ {ct : Nat × TSpec} {pp : List Nat}, getPackFormatPath a.fmt ap.pack ct.1 = .ok pp →
+      thePackPath a.fmt ap.pack ct.1 ∈ packPathsFrom a.fmt ap.pack ∧
+      ct.1 ∈ (a.fmt.pack ((thePackPath a.fmt ap.pack ct.1).getLastD 0)).channels ∧
+      (∀ q ∈ packPathsFrom a.fmt ap.pack, ct.1 ∈ (a.fmt.pack (q.getLastD 0)).channels →
+        q = thePackPath a.fmt ap.pack ct.1) := by
+    intro ct pp hpp
+    obtain ⟨e, h1, h2, h3⟩ := getPackFormatPath_eq hpp
+    subst e
+    exact ⟨h1, h2, h3⟩
+  have hagree : ∀ {pp : List Nat} {ad : Option Rat}, getPathParam (absDistAlong a.fmt pp) = .ok ad →
+      ∀ x, some x ∈ absDistAlong a.fmt pp → firstSome (absDistAlong a.fmt pp) = some x := by
+    intro pp ad had x hx
+    rw [← getPathParam_eq_firstSome had]
+    exact ((getPathParam_ok_iff _ _).1 had).1 x hx
+  unfold itemsOfPack at h
+  dsimp only at h
+  split at h
+  · rename_i hty
+    refine ⟨fun ct hct => ?_, fun h4 => by rcases hty with h3 | h1 <;> omega⟩
+    obtain ⟨hall, _⟩ := (mapE_ok_iff _ _ _).1 h
+    obtain ⟨it, hit⟩ := hall ct hct
+    obtain ⟨_, ⟨pp, hpp⟩, ad, had⟩ := singleItem_eq_decl (p := ap.pack) hit
+    obtain ⟨h1, h2, h3⟩ := hpath hpp
+    exact ⟨h1, h2, h3, hagree had⟩
+  · split at h
+    · rename_i hty
+      cases hh : hoaItem a st ap with
+      | error e => simp [hh] at h
+      | ok it =>
+        obtain ⟨hp, hm, ex, hmeta, hex, _⟩ := (hoaItem_ok_iff a st ap it).1 hh
+        obtain ⟨ad, had, _⟩ := (getExtraData_ok_iff _ _ _ _ _).1 hex
+        obtain ⟨hne, hall⟩ := (getSingleParam_ok_iff _ _ _).1 had
+        have hall' : ∀ ct ∈ ap.alloc, getPathParam (absDistAlong a.fmt (thePackPath a.fmt ap.pack ct.1)) = .ok ad :=
+          fun ct hct => hall _ (List.mem_map.2 ⟨ct, hct, rfl⟩)
+        refine ⟨fun ct hct => ?_, fun _ => ⟨hm, ad, hmeta, ?_, hall'⟩⟩
+        · obtain ⟨pp, hpp⟩ := hp ct hct
+          obtain ⟨h1, h2, h3⟩ := hpath hpp
+          exact ⟨h1, h2, h3, hagree (hall' ct hct)⟩
+        · intro hnil
+          apply hne
+          simp [packPathsChannels, hnil]
+    · cases h
+
+/-- for a channel of a regular `AllocationPack` the pack path of its item is the `pack_formats` of that
+`AllocationChannel` (what the track's pack reference was matched against). -/
+theorem regular_item_path {f : Formats} {p : Nat} {c : PackAlloc.Channel} (hc : c ∈ (wrapRegular f p).channels)
+    {pp : List Nat} (h : getPackFormatPath f p c.cf = .ok pp) : pp = c.pfs := by
+  simp only [wrapRegular, List.mem_map] at hc
+  obtain ⟨s, hs, rfl⟩ := hc
+  exact getPackFormatPath_of_slot hs h
+
+end Declarative
+
+/-! ## re-ordering an object's own audioPackFormat / audioTrackUID reference lists -/
+
+/-- a permutation of a list is a re-indexing: position `i` of `l` is position `g i` of `l'`, and `k` is
+the inverse re-indexing. -/
+theorem perm_index_maps {α : Type} {l l' : List α} (h : l.Perm l') :
+    ∃ g k : Nat → Nat,
+      ((List.range l.length).map g).Perm (List.range l'.length) ∧
+      ((List.range l'.length).map k).Perm (List.range l.length) ∧
+      (∀ i, i < l.length → l'[g i]? = l[i]?) ∧ (∀ j, j < l'.length → l[k j]? = l'[j]?) ∧
+      (∀ i, i < l.length → k (g i) = i) ∧ (∀ j, j < l'.length → g (k j) = j) := by
+  induction h with
+  | nil => exact ⟨id, id, by simp, by simp, fun i hi => by simp at hi, fun i hi => by simp at hi,
+      fun _ _ => rfl, fun _ _ => rfl⟩
+  | @cons x l l' _ ih =>
+    obtain ⟨g, k, hg, hk, hgi, hki, hkg, hgk⟩ := ih
+    have shift : ∀ (u : Nat → Nat) (n m : Nat), ((List.range n).map u).Perm (List.range m) →
+        ((List.range (n + 1)).map (fun i => match i with | 0 => 0 | i + 1 => u i + 1)).Perm (List.range (m + 1)) := by
+      intro u n m hu
+      simp only [List.range_succ_eq_map, List.map_cons, List.map_map]
+      refine List.Perm.cons _ ?_
+      have : ((fun i => match i with | 0 => 0 | i + 1 => u i + 1) ∘ Nat.succ) = Nat.succ ∘ u := by
+        funext i; rfl
+      rw [this, ← List.map_map]
+      exact hu.map _
+    refine ⟨fun i => match i with | 0 => 0 | i + 1 => g i + 1, fun i => match i with | 0 => 0 | i + 1 => k i + 1,
+      shift g _ _ hg, shift k _ _ hk, ?_, ?_, ?_, ?_⟩
+    · intro i hlt
+      cases i with
+      | zero => rfl
+      | succ j => simp only [List.getElem?_cons_succ]; exact hgi j (by simpa using hlt)
+    · intro i hlt
+      cases i with
+      | zero => rfl
+      | succ j => simp only [List.getElem?_cons_succ]; exact hki j (by simpa using hlt)
+    · intro i hlt
+      cases i with
+      | zero => rfl
+      | succ j => simp only; rw [hkg j (by simpa using hlt)]
+    · intro i hlt
+      cases i with
+      | zero => rfl
+      | succ j => simp only; rw [hgk j (by simpa using hlt)]
+  | swap x y l =>
+    have sw : ((List.range (l.length + 1 + 1)).map (fun i => match i with | 0 => 1 | 1 => 0 | i + 2 => i + 2)).Perm
+        (List.range (l.length + 1 + 1)) := by
+      simp only [List.range_succ_eq_map, List.map_cons, List.map_map]
+      refine (List.Perm.swap _ _ _).trans ?_
+      refine List.Perm.cons _ (List.Perm.cons _ ?_)
+      exact List.Perm.of_eq (List.map_congr_left fun i _ => rfl)
+    refine ⟨fun i => match i with | 0 => 1 | 1 => 0 | i + 2 => i + 2,
+      fun i => match i with | 0 => 1 | 1 => 0 | i + 2 => i + 2, sw, sw, ?_, ?_, ?_, ?_⟩
+    all_goals
+      intro i hlt
+      match i with
+      | 0 => rfl
+      | 1 => rfl
+      | j + 2 => rfl
+  | @trans l₁ l₂ l₃ _ _ ih₁ ih₂ =>
+    obtain ⟨g₁, k₁, hg₁, hk₁, hgi₁, hki₁, hkg₁, hgk₁⟩ := ih₁
+    obtain ⟨g₂, k₂, hg₂, hk₂, hgi₂, hki₂, hkg₂, hgk₂⟩ := ih₂
+    have m1 : ∀ i, i < l₁.length → g₁ i < l₂.length := fun i hlt =>
+      List.mem_range.1 (hg₁.mem_iff.1 (List.mem_map.2 ⟨i, List.mem_range.2 hlt, rfl⟩))
+    have m2 : ∀ j, j < l₃.length → k₂ j < l₂.length := fun j hlt =>
+      List.mem_range.1 (hk₂.mem_iff.1 (List.mem_map.2 ⟨j, List.mem_range.2 hlt, rfl⟩))
+    refine ⟨g₂ ∘ g₁, k₁ ∘ k₂, ?_, ?_, ?_, ?_, ?_, ?_⟩
+    · rw [← List.map_map]; exact (hg₁.map g₂).trans hg₂
+    · rw [← List.map_map]; exact (hk₂.map k₁).trans hk₁
+    · intro i hlt
+      simp only [Function.comp]
+      rw [hgi₂ _ (m1 i hlt), hgi₁ i hlt]
+    · intro j hlt
+      simp only [Function.comp]
+      rw [hki₁ _ (m2 j hlt), hki₂ j hlt]
+    · intro i hlt
+      simp only [Function.comp]
+      rw [hkg₂ _ (m1 i hlt), hkg₁ i hlt]
+    · intro j hlt
+      simp only [Function.comp]
+      rw [hgk₁ _ (m2 j hlt), hgk₂ j hlt]
+
+theorem perm_index_map {α : Type} {l l' : List α} (h : l.Perm l') :
+    ∃ g : Nat → Nat, ((List.range l.length).map g).Perm (List.range l'.length) ∧
+      ∀ i, i < l.length → l'[g i]? = l[i]? := by
+  obtain ⟨g, _, hg, _, hgi, _⟩ := perm_index_maps h
+  exact ⟨g, hg, hgi⟩
+
+/-- an `AllocationTrackUID` moved to another position of the selected-track list. -/
+def reTrack (g : Nat → Nat) (t : PackAlloc.Track) : PackAlloc.Track := { t with id := g t.id }
+
+def reSlot (g : Nat → Nat) (s : PackAlloc.Slot) : PackAlloc.Slot := s.map (Option.map (reTrack g))
+
+def reAllocated (g : Nat → Nat) (al : PackAlloc.Allocated) : PackAlloc.Allocated :=
+  ⟨al.pack, al.allocation.map fun cs => (cs.1, reSlot g cs.2)⟩
+
+theorem slots_reSol (g : Nat → Nat) (sol : PackAlloc.Sol) :
+    PackAlloc.slots (sol.map (reAllocated g)) = (PackAlloc.slots sol).map fun cs => (cs.1, reSlot g cs.2) := by
+  simp [PackAlloc.slots, List.flatMap_map, List.map_flatMap, reAllocated]
+
+theorem filled_reSol (g : Nat → Nat) (sol : PackAlloc.Sol) :
+    PackAlloc.filled (sol.map (reAllocated g)) = (PackAlloc.filled sol).map (Option.map (reTrack g)) := by
+  unfold PackAlloc.filled
+  rw [slots_reSol]
+  generalize PackAlloc.slots sol = l
+  induction l with
+  | nil => rfl
+  | cons cs rest ih =>
+    obtain ⟨c, s⟩ := cs
+    simp only [List.map_cons, List.filterMap_cons]
+    cases s with
+    | none => exact ih
+    | some t => exact congrArg (Option.map (reTrack g) t :: ·) ih
+
+theorem realTracks_reSol (g : Nat → Nat) (sol : PackAlloc.Sol) :
+    PackAlloc.realTracks (sol.map (reAllocated g)) = (PackAlloc.realTracks sol).map (reTrack g) := by
+  unfold PackAlloc.realTracks
+  rw [filled_reSol]
+  exact filterMap_id_map _ _
+
+theorem numSilentIn_reSol (g : Nat → Nat) (sol : PackAlloc.Sol) :
+    PackAlloc.numSilentIn (sol.map (reAllocated g)) = PackAlloc.numSilentIn sol := by
+  unfold PackAlloc.numSilentIn
+  rw [filled_reSol]
+  generalize PackAlloc.filled sol = l
+  induction l with
+  | nil => rfl
+  | cons t rest ih => cases t <;> simp [ih]
+
+/-- a valid allocation stays valid when the selected tracks are listed in another order (their identities
+moved along) and the pack references are listed in another order. -/
+theorem valid_retrack (g : Nat → Nat) {prob prob' : PackAlloc.Problem}
+    (hp : prob'.packs = prob.packs)
+    (ht : (prob.tracks.map (reTrack g)).Perm prob'.tracks)
+    (hr : match prob.packRefs, prob'.packRefs with
+          | none, none => True
+          | some r, some r' => r.Perm r'
+          | _, _ => False)
+    (hn : prob'.numSilent = prob.numSilent) {sol : PackAlloc.Sol} (hv : PackAlloc.Valid prob sol) :
+    PackAlloc.Valid prob' (sol.map (reAllocated g)) := by
+  refine ⟨?_, ?_, ?_, ?_, ?_, ?_, ?_⟩
+  · intro al hal
+    obtain ⟨al0, hal0, rfl⟩ := List.mem_map.1 hal
+    rw [hp]
+    exact hv.packs_mem al0 hal0
+  · intro al hal
+    obtain ⟨al0, hal0, rfl⟩ := List.mem_map.1 hal
+    simp only [reAllocated, List.map_map]
+    rw [← hv.channels al0 hal0]
+    rfl
+  · intro cs hcs
+    rw [slots_reSol] at hcs
+    obtain ⟨cs0, hcs0, rfl⟩ := List.mem_map.1 hcs
+    have := hv.complete cs0 hcs0
+    cases h : cs0.2 with
+    | none => exact absurd h this
+    | some t => simp [reSlot]
+  · rw [realTracks_reSol]
+    exact (hv.tracks.map _).trans ht
+  · rw [numSilentIn_reSol, hn]; exact hv.silent
+  · intro cs hcs t hts
+    rw [slots_reSol] at hcs
+    obtain ⟨cs0, hcs0, rfl⟩ := List.mem_map.1 hcs
+    simp only [reSlot] at hts
+    cases h0 : cs0.2 with
+    | none => simp [h0] at hts
+    | some o =>
+      cases o with
+      | none => simp [h0] at hts
+      | some t0 =>
+        simp only [h0, Option.map_some, Option.some.injEq] at hts
+        subst hts
+        exact hv.compat cs0 hcs0 t0 h0
+  · have := hv.refs
+    have hroots : (sol.map (reAllocated g)).map (·.pack.root) = sol.map (·.pack.root) := by
+      simp [List.map_map, reAllocated, Function.comp_def]
+    rw [hroots]
+    cases hpr : prob.packRefs with
+    | none =>
+      cases hpr' : prob'.packRefs with
+      | none => trivial
+      | some r' => rw [hpr, hpr'] at hr; exact hr.elim
+    | some r =>
+      cases hpr' : prob'.packRefs with
+      | none => rw [hpr, hpr'] at hr; exact hr.elim
+      | some r' =>
+        rw [hpr, hpr'] at hr
+        rw [hpr] at this
+        exact List.Perm.trans this hr
+
+/-- everything of an audioObject that item selection reads besides its own pack / track reference lists. -/
+def Obj.core (o : Obj) : Obj := { o with packs := [], tracks := [] }
+
+/-- `a'` is `a` with the audioPackFormat and audioTrackUID reference lists of every audioObject re-ordered
+(silent tracks included); everything else unchanged. -/
+structure OwnRefsPerm (a a' : Adm) : Prop where
+  programmes : a'.programmes = a.programmes
+  contents : a'.contents = a.contents
+  fmt : a'.fmt = a.fmt
+  nobj : a'.objects.length = a.objects.length
+  core : ∀ i, (a'.obj i).core = (a.obj i).core
+  packs : ∀ i, (a.obj i).packs.Perm (a'.obj i).packs
+  tracks : ∀ i, (a.obj i).tracks.Perm (a'.obj i).tracks
+
+namespace OwnRefsPerm
+variable {a a' : Adm}
+
+theorem fields (h : OwnRefsPerm a a') (i : Nat) :
+    (a'.obj i).subObjects = (a.obj i).subObjects ∧ (a'.obj i).complementary = (a.obj i).complementary ∧
+    (a'.obj i).start = (a.obj i).start ∧ (a'.obj i).duration = (a.obj i).duration ∧
+    (a'.obj i).gain = (a.obj i).gain ∧ (a'.obj i).mute = (a.obj i).mute ∧
+    (a'.obj i).posOff = (a.obj i).posOff ∧ (a'.obj i).importance = (a.obj i).importance ∧
+    (a'.obj i).avs = (a.obj i).avs := by
+  have := h.core i
+  generalize a'.obj i = o' at this
+  generalize a.obj i = o at this
+  cases o; cases o'
+  simp only [Obj.core, Obj.mk.injEq, true_and] at this
+  obtain ⟨h1, h2, h3, h4, h5, h6, h7, h8, h9⟩ := this
+  exact ⟨h1, h2, h3, h4, h5, h6, h7, h8, h9⟩
+
+theorem prog (h : OwnRefsPerm a a') (p : Nat) : a'.prog p = a.prog p := by unfold Adm.prog; rw [h.programmes]
+theorem cont (h : OwnRefsPerm a a') (c : Nat) : a'.cont c = a.cont c := by unfold Adm.cont; rw [h.contents]
+
+theorem subs_eq (h : OwnRefsPerm a a') : a'.subs = a.subs := by
+  funext i; unfold Adm.subs; exact (h.fields i).1
+
+theorem rootObjects_eq (h : OwnRefsPerm a a') : rootObjects a' = rootObjects a := by
+  unfold rootObjects
+  simp only [h.nobj]
+  apply List.filter_congr
+  intro i _
+  congr 1
+  rw [Bool.eq_iff_iff]
+  simp only [List.contains_iff_mem, mem_nonRoot, h.nobj, h.subs_eq]
+
+theorem specStates_eq (h : OwnRefsPerm a a') (prog : Option Nat) (ign : List Nat) :
+    specStates a' prog ign = specStates a prog ign := by
+  have hpaths : ∀ r, specPaths a' ign r = specPaths a ign r := by
+    intro r; unfold specPaths objectPathsFrom; rw [h.subs_eq, h.nobj]
+  have hno : a'.objects = [] ↔ a.objects = [] := by
+    rw [← List.length_eq_zero_iff, ← List.length_eq_zero_iff, h.nobj]
+  unfold specStates
+  simp only [h.programmes, hno, h.rootObjects_eq, hpaths, h.prog, h.cont]
+
+theorem selectComplementary_eq (h : OwnRefsPerm a a') (sel : List Nat) :
+    selectComplementary a' sel = selectComplementary a sel := by
+  have hc : ∀ i, (a'.obj i).complementary = (a.obj i).complementary := fun i => (h.fields i).2.1
+  have hroots : compRoots a' = compRoots a := by
+    unfold compRoots; simp only [h.nobj, hc]
+  have hg : compGroup a' = compGroup a := by
+    funext r; unfold compGroup; rw [hc]
+  unfold Earverif.Adm.selectComplementary compAllSelected
+  simp only [hroots, hg]
+
+theorem getAvs_eq (h : OwnRefsPerm a a') (st : State) : getAvs a' st = getAvs a st := by
+  unfold getAvs State.leaf
+  cases st.objPath with
+  | none => rfl
+  | some p =>
+    simp only [Option.map_some, h.prog, h.cont, (h.fields _).2.2.2.2.2.2.2.2]
+
+theorem extraOf_eq (h : OwnRefsPerm a a') (st : State) (ch : Option Nat) (ad : Option Rat) :
+    extraOf a' st ch ad = extraOf a st ch ad := by
+  unfold extraOf
+  rw [h.getAvs_eq, h.fmt]
+  unfold State.leaf
+  cases st.objPath with
+  | none => simp only [Option.map_none, h.prog]
+  | some p =>
+    obtain ⟨_, _, h3, h4, h5, h6, h7, _, _⟩ := h.fields (p.getLastD 0)
+    simp only [Option.map_some, h.prog, h3, h4, h5, h6, h7]
+
+theorem getImportance_eq (h : OwnRefsPerm a a') (st : State) (pp : List Nat) :
+    getImportance a' st pp = getImportance a st pp := by
+  unfold getImportance
+  rw [h.fmt]
+  cases st.objPath with
+  | none => rfl
+  | some p =>
+    have : (p.map fun o => (a'.obj o).importance) = p.map fun o => (a.obj o).importance :=
+      List.map_congr_left fun o _ => (h.fields o).2.2.2.2.2.2.2.1
+    simp only [this]
+
+theorem declItems_eq (h : OwnRefsPerm a a') (st : State) (ap : AllocPack) :
+    declItems a' st ap = declItems a st ap := by
+  unfold declItems declSingle declHoa
+  simp only [h.fmt, h.extraOf_eq, h.getImportance_eq]
+
+theorem stateUids_perm (h : OwnRefsPerm a a') (st : State) : (stateUids a st).Perm (stateUids a' st) := by
+  unfold stateUids
+  cases st.objPath with
+  | none => rw [h.fmt]
+  | some p => exact (h.tracks _).filterMap _
+
+end OwnRefsPerm
+
+theorem zipIdx_map_eq_range_map {β : Type} (l : List Nat) (k : Nat × Nat → β) :
+    l.zipIdx.map k = (List.range l.length).map fun i => k (l.getD i 0, i) := by
+  apply List.ext_getElem
+  · simp
+  · intro i h1 h2
+    simp only [List.length_map, List.length_zipIdx] at h1
+    simp [List.getD_eq_getElem?_getD, List.getElem?_eq_getElem h1]
+
+theorem slotTrack_reSlot {f : Formats} {uids uids' : List Nat} {g : Nat → Nat}
+    (hg : ∀ i, i < uids.length → uids'[g i]? = uids[i]?) {s : PackAlloc.Slot} (hs : SlotOK uids s) :
+    slotTrack f uids' (reSlot g s) = slotTrack f uids s := by
+  cases s with
+  | none => exact hs.elim
+  | some x =>
+    cases x with
+    | none => rfl
+    | some t =>
+      simp only [reSlot, Option.map_some, slotTrack, reTrack, List.getD_eq_getElem?_getD, hg t.id hs]
+
+theorem declOutput_reAllocated {f : Formats} {uids uids' : List Nat} {g : Nat → Nat}
+    (hg : ∀ i, i < uids.length → uids'[g i]? = uids[i]?) {al : PackAlloc.Allocated}
+    (hok : ∀ cs ∈ al.allocation, SlotOK uids cs.2) :
+    declOutput f uids' (reAllocated g al) = declOutput f uids al := by
+  have hin : inputAlloc f uids' (reAllocated g al) = inputAlloc f uids al := by
+    simp only [inputAlloc, reAllocated, List.map_map]
+    exact List.map_congr_left fun cs hcs => by simp [slotTrack_reSlot hg (hok cs hcs)]
+  unfold declOutput
+  rw [hin]
+  rfl
+
+theorem OwnRefsPerm.symm {a a' : Adm} (h : OwnRefsPerm a a') : OwnRefsPerm a' a :=
+  ⟨h.programmes.symm, h.contents.symm, h.fmt.symm, h.nobj.symm, fun i => (h.core i).symm,
+    fun i => (h.packs i).symm, fun i => (h.tracks i).symm⟩
+
+/-- valid allocations of a state correspond when the object's reference lists are re-ordered: `g` sends the
+position of a selected track in the old order to its position in the new one. -/
+theorem ownRefs_valid {a a' : Adm} (h : OwnRefsPerm a a') (st : State) (wps : List WPack) {g : Nat → Nat}
+    (hgp : ((List.range (stateUids a st).length).map g).Perm (List.range (stateUids a' st).length))
+    (hgi : ∀ i, i < (stateUids a st).length → (stateUids a' st)[g i]? = (stateUids a st)[i]?)
+    {sol : PackAlloc.Sol} (hv : PackAlloc.Valid (allocProblem a st wps).1 sol) :
+    PackAlloc.Valid (allocProblem a' st wps).1 (sol.map (reAllocated g)) := by
+  obtain ⟨f1, f2, f3, f4⟩ := allocProblem_fields a st wps
+  obtain ⟨f1', f2', f3', f4'⟩ := allocProblem_fields a' st wps
+  have hleafP : ∀ o o', st.leaf a = some o → st.leaf a' = some o' → o.packs.Perm o'.packs ∧ o.tracks.Perm o'.tracks := by
+    intro o o' ho ho'
+    unfold State.leaf at ho ho'
+    cases hp : st.objPath with
+    | none => simp [hp] at ho
+    | some p =>
+      simp only [hp, Option.map_some, Option.some.injEq] at ho ho'
+      subst ho; subst ho'
+      exact ⟨h.packs _, h.tracks _⟩
+  have hleafN : st.leaf a = none ↔ st.leaf a' = none := by
+    unfold State.leaf; cases st.objPath <;> simp
+  refine valid_retrack g (by rw [f1, f1']) ?_ ?_ ?_ hv
+  · rw [f2, f2', h.fmt, List.map_map, zipIdx_map_eq_range_map, zipIdx_map_eq_range_map]
+    have : (fun i => ((reTrack g) ∘ fun (ui : Nat × Nat) =>
+          (⟨ui.2, trackChannel a.fmt ui.1, (a.fmt.uid ui.1).pack⟩ : PackAlloc.Track)) ((stateUids a st).getD i 0, i)) =
+        fun i => (⟨g i, trackChannel a.fmt ((stateUids a st).getD i 0),
+          (a.fmt.uid ((stateUids a st).getD i 0)).pack⟩ : PackAlloc.Track) := rfl
+    rw [this]
+    have e : (List.range (stateUids a st).length).map (fun i => (⟨g i, trackChannel a.fmt ((stateUids a st).getD i 0),
+          (a.fmt.uid ((stateUids a st).getD i 0)).pack⟩ : PackAlloc.Track)) =
+        ((List.range (stateUids a st).length).map g).map (fun j => (⟨j, trackChannel a.fmt ((stateUids a' st).getD j 0),
+          (a.fmt.uid ((stateUids a' st).getD j 0)).pack⟩ : PackAlloc.Track)) := by
+      rw [List.map_map]
+      refine List.map_congr_left fun i hi => ?_
+      have := hgi i (List.mem_range.1 hi)
+      simp only [Function.comp, List.getD_eq_getElem?_getD, this]
+    rw [e]
+    exact hgp.map _
+  · rw [f3, f3']
+    cases ho : st.leaf a with
+    | none => rw [hleafN.1 ho]; trivial
+    | some o =>
+      cases ho' : st.leaf a' with
+      | none => rw [hleafN.2 ho'] at ho; cases ho
+      | some o' => exact (hleafP o o' ho ho').1
+  · rw [f4, f4']
+    cases ho : st.leaf a with
+    | none => rw [hleafN.1 ho]
+    | some o =>
+      cases ho' : st.leaf a' with
+      | none => rw [hleafN.2 ho'] at ho; cases ho
+      | some o' => simp only [Option.map_some, Option.getD_some]; exact ((hleafP o o' ho ho').2.count_eq none).symm
+
+theorem reAllocated_pack (g : Nat → Nat) (al : PackAlloc.Allocated) : (reAllocated g al).pack = al.pack := rfl
+
+theorem ownRefs_valid_dropEmpty {a a' : Adm} (h : OwnRefsPerm a a') (st : State) (wps : List WPack) {g : Nat → Nat}
+    (hgp : ((List.range (stateUids a st).length).map g).Perm (List.range (stateUids a' st).length))
+    (hgi : ∀ i, i < (stateUids a st).length → (stateUids a' st)[g i]? = (stateUids a st)[i]?)
+    {sol : PackAlloc.Sol} (hv : PackAlloc.Valid (PackAlloc.dropEmpty (allocProblem a st wps).1) sol) :
+    PackAlloc.Valid (PackAlloc.dropEmpty (allocProblem a' st wps).1) (sol.map (reAllocated g)) := by
+  obtain ⟨hv1, hv2⟩ := (valid_dropEmpty_iff' _ _).1 hv
+  refine (valid_dropEmpty_iff' _ _).2 ⟨ownRefs_valid h st wps hgp hgi hv1, fun al hal => ?_⟩
+  obtain ⟨al0, hal0, rfl⟩ := List.mem_map.1 hal
+  exact hv2 al0 hal0
+
+/-- moving the tracks there and back gives the allocation back. -/
+theorem reAllocated_inv {g k : Nat → Nat} {al : PackAlloc.Allocated}
+    (h : ∀ cs ∈ al.allocation, ∀ t, cs.2 = some (some t) → g (k t.id) = t.id) :
+    reAllocated g (reAllocated k al) = al := by
+  obtain ⟨pk, allocation⟩ := al
+  simp only [reAllocated, List.map_map, PackAlloc.Allocated.mk.injEq, true_and]
+  simp only at h
+  conv => rhs; rw [← List.map_id allocation]
+  refine List.map_congr_left fun cs hcs => ?_
+  obtain ⟨c, s⟩ := cs
+  cases s with
+  | none => rfl
+  | some x =>
+    cases x with
+    | none => rfl
+    | some t =>
+      have := h _ hcs t rfl
+      simp only [Function.comp, reSlot, Option.map_some, reTrack, this, id]
+
+/-- the identities of the real tracks of a valid allocation are positions of the selected-track list. -/
+theorem valid_track_id_lt {a : Adm} {st : State} {wps : List WPack} {sol : PackAlloc.Sol}
+    (hv : PackAlloc.Valid (allocProblem a st wps).1 sol) {al : PackAlloc.Allocated} (hal : al ∈ sol)
+    {cs : PackAlloc.Channel × PackAlloc.Slot} (hcs : cs ∈ al.allocation) {t : PackAlloc.Track}
+    (ht : cs.2 = some (some t)) : t.id < (stateUids a st).length := by
+  have hmem : t ∈ PackAlloc.realTracks sol := by
+    simp only [PackAlloc.realTracks, PackAlloc.filled, PackAlloc.slots, List.mem_filterMap, List.mem_flatMap, id]
+    exact ⟨some t, ⟨cs, ⟨al, hal, hcs⟩, ht⟩, rfl⟩
+  have := hv.tracks.mem_iff.1 hmem
+  rw [(allocProblem_fields a st wps).2.1] at this
+  obtain ⟨ui, hui, rfl⟩ := List.mem_map.1 this
+  have := (List.mem_zipIdx hui).2.1
+  simpa using this
+
+theorem inputAlloc_reAllocated {f : Formats} {uids uids' : List Nat} {g : Nat → Nat}
+    (hg : ∀ i, i < uids.length → uids'[g i]? = uids[i]?) {al : PackAlloc.Allocated}
+    (hok : ∀ cs ∈ al.allocation, SlotOK uids cs.2) :
+    inputAlloc f uids' (reAllocated g al) = inputAlloc f uids al := by
+  simp only [inputAlloc, reAllocated, List.map_map]
+  exact List.map_congr_left fun cs hcs => by simp [slotTrack_reSlot hg (hok cs hcs)]
+
+theorem outputOK_reAllocated {f : Formats} {uids uids' : List Nat} {g : Nat → Nat}
+    (hg : ∀ i, i < uids.length → uids'[g i]? = uids[i]?) (hlt : ∀ i, i < uids.length → g i < uids'.length)
+    {al : PackAlloc.Allocated} (hok : OutputOK f uids al) : OutputOK f uids' (reAllocated g al) := by
+  refine ⟨?_, ?_⟩
+  · intro cs hcs
+    simp only [reAllocated, List.mem_map] at hcs
+    obtain ⟨cs0, hcs0, rfl⟩ := hcs
+    have := hok.1 cs0 hcs0
+    cases hs : cs0.2 with
+    | none => rw [hs] at this; exact this.elim
+    | some x =>
+      cases x with
+      | none => trivial
+      | some t => rw [hs] at this; exact hlt _ this
+  · rw [inputAlloc_reAllocated hg hok.1]
+    exact hok.2
+
+theorem OwnRefsPerm.itemsOfPack_eq {a a' : Adm} (h : OwnRefsPerm a a') (st : State) (ap : AllocPack) :
+    itemsOfPack a' st ap = itemsOfPack a st ap := by
+  have hged : ∀ ppc ch, getExtraData a' st ppc ch = getExtraData a st ppc ch := by
+    intro ppc ch; unfold getExtraData; simp only [h.fmt, h.extraOf_eq]
+  have hsingle : ∀ ty p, singleItem a' st ty p = singleItem a st ty p := by
+    intro ty p; funext ct; unfold singleItem; simp only [h.fmt, hged, h.getImportance_eq]
+  have hhoa : hoaItem a' st ap = hoaItem a st ap := by
+    unfold hoaItem; simp only [h.fmt, hged, h.getImportance_eq]
+  unfold itemsOfPack
+  simp only [h.fmt, hhoa, hsingle]
+
+/-- per state: the per-state pipeline succeeds on the re-ordered document whenever it does on the original,
+and the items are a permutation. -/
+theorem ownRefsPerm_itemsOfState {a a' : Adm} (h : OwnRefsPerm a a') (hmt : multitreeOK a.fmt = true) {st : State}
+    {its : List Item} (hs : itemsOfState a st = .ok its) :
+    ∃ its', itemsOfState a' st = .ok its' ∧ its.Perm its' := by
+  have hmt' : multitreeOK a'.fmt = true := by rw [h.fmt]; exact hmt
+  obtain ⟨g, k, hgp, hkp, hgi, hki, _, hgk⟩ := perm_index_maps (h.stateUids_perm st)
+  have hglt : ∀ i, i < (stateUids a st).length → g i < (stateUids a' st).length := fun i hlt =>
+    List.mem_range.1 (hgp.mem_iff.1 (List.mem_map.2 ⟨i, List.mem_range.2 hlt, rfl⟩))
+  -- the model's pipeline on `a`
+  have hs0 := hs
+  unfold itemsOfState at hs
+  cases hm : selectPackMapping a st with
+  | error e => simp [hm] at hs
+  | ok packs =>
+    simp only [hm] at hs
+    unfold selectPackMapping at hm
+    cases hw : wrappedPacks a.fmt with
+    | error e => simp [hw] at hm
+    | ok wps =>
+      simp only [hw] at hm
+      cases hsel : PackAlloc.selectPackMapping (allocProblem a st wps).1 with
+      | conflicting => simp [hsel] at hm
+      | ambiguous => simp [hsel] at hm
+      | accepted sol =>
+        simp only [hsel, allocProblem_uids] at hm
+        obtain ⟨hok, rfl⟩ := (mapE_ok_iff_of_pointwise (outputOf_ok_iff a.fmt (stateUids a st)) sol packs).1 hm
+        have hselD := hsel
+        rw [← PackAlloc.selectPackMapping_dropEmpty] at hselD
+        obtain ⟨hvD, huD⟩ := PackAlloc.select_accepted_unique _ (allocWF0_of_multitree hmt wps st hw) sol hselD
+        -- acceptance on `a'`
+        have hw' : wrappedPacks a'.fmt = .ok wps := by rw [h.fmt]; exact hw
+        have hwf' := allocWF0_of_multitree hmt' wps st hw'
+        have hvD' := ownRefs_valid_dropEmpty h st wps hgp hgi hvD
+        have huniq : ∀ s'', PackAlloc.Valid (PackAlloc.dropEmpty (allocProblem a' st wps).1) s'' →
+            PackAlloc.SolEquiv (sol.map (reAllocated g)) s'' := by
+          intro s'' hv''
+          have hvk := ownRefs_valid_dropEmpty h.symm st wps hkp hki hv''
+          have heq : PackAlloc.SolEquiv sol (s''.map (reAllocated k)) := huD _ hvk
+          have hback : (s''.map (reAllocated k)).map (reAllocated g) = s'' := by
+            rw [List.map_map]
+            conv => rhs; rw [← List.map_id s'']
+            refine List.map_congr_left fun al hal => ?_
+            refine reAllocated_inv fun cs hcs t ht => hgk _ ?_
+            exact valid_track_id_lt ((valid_dropEmpty_iff' _ _).1 hv'').1 hal hcs ht
+          have := List.Perm.map (reAllocated g) heq
+          rw [hback] at this
+          exact this
+        obtain ⟨s', hs'⟩ := (PackAlloc.select_accepted_iff_unique_valid _ hwf').2 ⟨_, hvD', huniq⟩
+        have hequiv : PackAlloc.SolEquiv s' (sol.map (reAllocated g)) :=
+          (PackAlloc.select_accepted_unique _ hwf' s' hs').2 _ hvD'
+        rw [PackAlloc.selectPackMapping_dropEmpty] at hs'
+        -- outputs and items on `a'`
+        have hmemS : ∀ al' ∈ s', ∃ al ∈ sol, al' = reAllocated g al := by
+          intro al' hal'
+          obtain ⟨al, hal, e⟩ := List.mem_map.1 (hequiv.mem_iff.1 hal')
+          exact ⟨al, hal, e.symm⟩
+        have hout : mapE (outputOf a'.fmt (stateUids a' st)) s' =
+            .ok (s'.map (declOutput a'.fmt (stateUids a' st))) := by
+          refine (mapE_ok_iff_of_pointwise (outputOf_ok_iff a'.fmt (stateUids a' st)) s' _).2 ⟨fun al' hal' => ?_, rfl⟩
+          obtain ⟨al, hal, rfl⟩ := hmemS al' hal'
+          rw [h.fmt]
+          exact outputOK_reAllocated hgi hglt (hok al hal)
+        obtain ⟨hall, rfl⟩ := (flatMapE_ok_iff _ _ _).1 hs
+        have hitems : ∀ ap' ∈ s'.map (declOutput a'.fmt (stateUids a' st)),
+            ∃ al ∈ sol, ap' = declOutput a.fmt (stateUids a st) al ∧
+              ∃ zs, itemsOfPack a' st ap' = .ok zs := by
+          intro ap' hap'
+          obtain ⟨al', hal', rfl⟩ := List.mem_map.1 hap'
+          obtain ⟨al, hal, rfl⟩ := hmemS al' hal'
+          have e : declOutput a'.fmt (stateUids a' st) (reAllocated g al) = declOutput a.fmt (stateUids a st) al := by
+            rw [h.fmt]; exact declOutput_reAllocated hgi (hok al hal).1
+          refine ⟨al, hal, e, ?_⟩
+          rw [e, h.itemsOfPack_eq]
+          exact hall _ (List.mem_map.2 ⟨al, hal, rfl⟩)
+        have hs'2 : itemsOfState a' st =
+            .ok ((s'.map (declOutput a'.fmt (stateUids a' st))).flatMap (okVal (itemsOfPack a' st))) := by
+          unfold itemsOfState selectPackMapping
+          simp only [hw', hs', allocProblem_uids, hout]
+          exact (flatMapE_ok_iff _ _ _).2 ⟨fun ap' hap' => by
+            obtain ⟨_, _, _, hz⟩ := hitems ap' hap'
+            exact hz, rfl⟩
+        refine ⟨_, hs'2, ?_⟩
+        -- the items
+        have hfun : okVal (itemsOfPack a' st) = okVal (itemsOfPack a st) := by
+          funext ap; simp only [okVal, h.itemsOfPack_eq]
+        rw [hfun]
+        have hmapped : (sol.map (reAllocated g)).map (declOutput a'.fmt (stateUids a' st)) =
+            sol.map (declOutput a.fmt (stateUids a st)) := by
+          rw [List.map_map]
+          refine List.map_congr_left fun al hal => ?_
+          simp only [Function.comp, h.fmt]
+          exact declOutput_reAllocated hgi (hok al hal).1
+        rw [← hmapped]
+        exact ((hequiv.map _).flatMap_right _).symm
+
+/-- **select_perm_own_refs**: re-ordering the audioPackFormat references and the audioTrackUID references
+(silent ones included) inside audioObjects does not change whether selection succeeds, and permutes the
+selected items: the items do not depend on the order in which an object lists its packs and tracks. -/
+theorem select_perm_own_refs {a a' : Adm} (h : OwnRefsPerm a a') (hmt : multitreeOK a.fmt = true)
+    (given : Option Nat) (sel : List Nat) {items : List Item}
+    (hs : selectRenderingItems a given sel = .ok items) :
+    ∃ items', selectRenderingItems a' given sel = .ok items' ∧ items.Perm items' := by
+  rw [select_eq_spec] at hs ⊢
+  unfold specSelect at hs ⊢
+  rw [h.selectComplementary_eq, selectProgramme_congr (a := a) (a' := a') (by rw [h.programmes]) given, h.fmt]
+  cases hw : wrappedPacks a.fmt with
+  | error e => simp [hw] at hs
+  | ok wps =>
+    simp only [hw] at hs ⊢
+    cases hc : selectComplementary a sel with
+    | error e => simp [hc] at hs
+    | ok ign =>
+      simp only [hc, h.specStates_eq] at hs ⊢
+      have hs1 : flatMapE (itemsOfState a) (specStates a (selectProgramme a given) ign) = .ok items := hs
+      show ∃ items', flatMapE (itemsOfState a') (specStates a (selectProgramme a given) ign) = .ok items' ∧ _
+      obtain ⟨hall, rfl⟩ := (flatMapE_ok_iff _ _ _).1 hs1
+      have hall' : ∀ st ∈ specStates a (selectProgramme a given) ign, ∃ its', itemsOfState a' st = .ok its' := by
+        intro st hst
+        obtain ⟨its, hits⟩ := hall st hst
+        obtain ⟨its', hits', _⟩ := ownRefsPerm_itemsOfState h hmt hits
+        exact ⟨its', hits'⟩
+      refine ⟨_, (flatMapE_ok_iff _ _ _).2 ⟨hall', rfl⟩, ?_⟩
+      refine perm_flatMap_congr (.refl _) fun st hst => ?_
+      obtain ⟨its, hits⟩ := hall st hst
+      obtain ⟨its', hits', hperm⟩ := ownRefsPerm_itemsOfState h hmt hits
+      simpa [okVal, hits, hits'] using hperm
+
+/-! ## re-numbering the audioContents (declaration order) -/
+
+/-- `a'` is `a` with the audioContents re-declared in another order: content `c` of `a` is content `ρ c` of
+`a'`, the audioProgrammes' content references remapped; everything else unchanged. -/
+structure ContRenamed (ρ : Nat → Nat) (a a' : Adm) : Prop where
+  objects : a'.objects = a.objects
+  fmt : a'.fmt = a.fmt
+  programmes : a'.programmes = a.programmes.map fun p => { p with contents := p.contents.map ρ }
+  cont : ∀ c, c < a.contents.length → a'.cont (ρ c) = a.cont c
+  refs : ∀ p ∈ a.programmes, ∀ c ∈ p.contents, c < a.contents.length
+
+def renStateC (ρ : Nat → Nat) (st : State) : State := { st with content := st.content.map ρ }
+def renItemC (ρ : Nat → Nat) (it : Item) : Item := { it with content := it.content.map ρ }
+
+namespace ContRenamed
+variable {ρ : Nat → Nat} {a a' : Adm}
+
+theorem obj (h : ContRenamed ρ a a') (i : Nat) : a'.obj i = a.obj i := by unfold Adm.obj; rw [h.objects]
+
+theorem prog (h : ContRenamed ρ a a') (p : Nat) :
+    a'.prog p = { a.prog p with contents := (a.prog p).contents.map ρ } := by
+  unfold Adm.prog
+  rw [h.programmes]
+  exact getD_map_default (fun p : Programme => { p with contents := p.contents.map ρ }) a.programmes p default
+
+theorem prog_refs (h : ContRenamed ρ a a') (p : Nat) : ∀ c ∈ (a.prog p).contents, c < a.contents.length := by
+  intro c hc
+  unfold Adm.prog at hc
+  rcases getD_mem_or_default a.programmes p default with hm | hd
+  · exact h.refs _ hm c hc
+  · rw [hd] at hc; cases hc
+
+theorem keys (h : ContRenamed ρ a a') : a'.programmes.map (·.idKey) = a.programmes.map (·.idKey) := by
+  rw [h.programmes, List.map_map]; rfl
+
+theorem selectComplementary_eq (h : ContRenamed ρ a a') (sel : List Nat) :
+    selectComplementary a' sel = selectComplementary a sel := by
+  have hroots : compRoots a' = compRoots a := by
+    unfold compRoots; simp only [h.objects, h.obj]
+  have hg : compGroup a' = compGroup a := by
+    funext r; unfold compGroup; rw [h.obj]
+  unfold Earverif.Adm.selectComplementary compAllSelected
+  simp only [hroots, hg]
+
+theorem specPaths_eq (h : ContRenamed ρ a a') (ign : List Nat) (r : Nat) : specPaths a' ign r = specPaths a ign r := by
+  have : a'.subs = a.subs := by funext i; unfold Adm.subs; rw [h.obj]
+  unfold specPaths objectPathsFrom; rw [this, h.objects]
+
+theorem specStates_eq (h : ContRenamed ρ a a') (prog : Option Nat) (ign : List Nat) :
+    specStates a' prog ign = (specStates a prog ign).map (renStateC ρ) := by
+  have hroot : rootObjects a' = rootObjects a := by unfold rootObjects; rw [h.objects]
+  have hnp : a'.programmes = [] ↔ a.programmes = [] := by
+    rw [h.programmes]; exact List.map_eq_nil_iff
+  unfold specStates
+  simp only [hnp, h.objects]
+  split
+  · rfl
+  · cases prog with
+    | none =>
+      simp only [hroot, h.specPaths_eq, List.map_flatMap, List.map_map]
+      rfl
+    | some p =>
+      simp only [h.prog, List.flatMap_map, List.map_flatMap, List.map_map, h.specPaths_eq]
+      refine flatMap_congr' fun c hc => ?_
+      rw [h.cont c (h.prog_refs p c hc)]
+      rfl
+
+theorem getAvs_eq (h : ContRenamed ρ a a') {st : State} (hc : ∀ c, st.content = some c → c < a.contents.length) :
+    getAvs a' (renStateC ρ st) = getAvs a st := by
+  have hleaf : (renStateC ρ st).leaf a' = st.leaf a := by
+    unfold State.leaf renStateC; simp only [h.obj]
+  unfold getAvs
+  rw [hleaf]
+  cases st.leaf a with
+  | none => rfl
+  | some o =>
+    obtain ⟨pr, co, op⟩ := st
+    cases co with
+    | none => cases pr <;> simp only [renStateC, Option.map_none, h.prog]
+    | some c =>
+      have hcc := h.cont c (hc c rfl)
+      cases pr <;> simp only [renStateC, Option.map_some, h.prog, hcc]
+
+theorem extraOf_eq (h : ContRenamed ρ a a') {st : State} (hc : ∀ c, st.content = some c → c < a.contents.length)
+    (ch : Option Nat) (ad : Option Rat) : extraOf a' (renStateC ρ st) ch ad = extraOf a st ch ad := by
+  have hleaf : (renStateC ρ st).leaf a' = st.leaf a := by
+    unfold State.leaf renStateC; simp only [h.obj]
+  unfold extraOf
+  rw [h.getAvs_eq hc, hleaf, h.fmt]
+  have : (renStateC ρ st).programme = st.programme := rfl
+  rw [this]
+  cases st.programme <;> simp only [h.prog]
+
+theorem getImportance_eq (h : ContRenamed ρ a a') (st : State) (pp : List Nat) :
+    getImportance a' (renStateC ρ st) pp = getImportance a st pp := by
+  unfold getImportance renStateC
+  simp only [h.fmt, h.obj]
+
+theorem itemsOfPack (h : ContRenamed ρ a a') {st : State} (hc : ∀ c, st.content = some c → c < a.contents.length)
+    (ap : AllocPack) :
+    itemsOfPack a' (renStateC ρ st) ap = (itemsOfPack a st ap).map (List.map (renItemC ρ)) := by
+  have hged : ∀ ppc ch, getExtraData a' (renStateC ρ st) ppc ch = getExtraData a st ppc ch := by
+    intro ppc ch; unfold getExtraData; simp only [h.fmt, h.extraOf_eq hc]
+  have hsingle : ∀ ty p ct, singleItem a' (renStateC ρ st) ty p ct = (singleItem a st ty p ct).map (renItemC ρ) := by
+    intro ty p ct
+    unfold singleItem
+    simp only [h.fmt, hged, h.getImportance_eq]
+    cases getPackFormatPath a.fmt p ct.1 with
+    | error e => rfl
+    | ok pp =>
+      simp only
+      cases getExtraData a st [(pp, ct.1)] (some ct.1) with
+      | error e => rfl
+      | ok ex => rfl
+  have hhoa : hoaItem a' (renStateC ρ st) ap = (hoaItem a st ap).map (renItemC ρ) := by
+    unfold hoaItem
+    simp only [h.fmt, hged, h.getImportance_eq]
+    cases mapE (hoaPathOf a.fmt ap.pack) ap.alloc with
+    | error e => rfl
+    | ok ppc =>
+      simp only
+      cases hoaMetaOf a.fmt ppc with
+      | error e => rfl
+      | ok hm =>
+        simp only
+        cases getExtraData a st ppc none with
+        | error e => rfl
+        | ok ex => rfl
+  unfold Earverif.Adm.itemsOfPack
+  simp only [h.fmt]
+  split
+  · exact mapE_map_comm fun ct _ => hsingle _ _ ct
+  · split
+    · rw [hhoa]
+      cases hoaItem a st ap <;> rfl
+    · rfl
+
+theorem itemsOfState (h : ContRenamed ρ a a') {st : State} (hc : ∀ c, st.content = some c → c < a.contents.length) :
+    itemsOfState a' (renStateC ρ st) = (itemsOfState a st).map (List.map (renItemC ρ)) := by
+  have hprob : ∀ wps, allocProblem a' (renStateC ρ st) wps = allocProblem a st wps := by
+    intro wps; unfold allocProblem renStateC; simp only [h.fmt, h.obj]
+  have hmap : selectPackMapping a' (renStateC ρ st) = selectPackMapping a st := by
+    unfold selectPackMapping; simp only [h.fmt, hprob]
+  unfold Earverif.Adm.itemsOfState
+  rw [hmap]
+  cases selectPackMapping a st with
+  | error e => rfl
+  | ok packs => exact flatMapE_map_comm fun ap _ => h.itemsOfPack hc ap
+
+end ContRenamed
+
+theorem specStates_content_lt {a : Adm} {ρ : Nat → Nat} {a' : Adm} (h : ContRenamed ρ a a') {prog : Option Nat}
+    {ign : List Nat} {st : State} (hst : st ∈ specStates a prog ign) :
+    ∀ c, st.content = some c → c < a.contents.length := by
+  unfold specStates at hst
+  split at hst
+  · simp only [List.mem_singleton] at hst; subst hst; intro c hc; cases hc
+  · cases prog with
+    | none =>
+      simp only [List.mem_flatMap, List.mem_map] at hst
+      obtain ⟨_, _, _, _, rfl⟩ := hst
+      intro c hc; cases hc
+    | some p =>
+      simp only [List.mem_flatMap, List.mem_map] at hst
+      obtain ⟨c0, hc0, _, _, _, _, rfl⟩ := hst
+      intro c hc
+      cases hc
+      exact h.prog_refs p c0 hc0
+
+/-- **select_renumber_contents**: re-declaring the audioContents in another order (references remapped)
+gives the same result — the same items in the same order with the content index renamed, or the same
+error. -/
+theorem select_renumber_contents {ρ : Nat → Nat} {a a' : Adm} (h : ContRenamed ρ a a') (given : Option Nat)
+    (sel : List Nat) :
+    selectRenderingItems a' given sel = (selectRenderingItems a given sel).map (List.map (renItemC ρ)) := by
+  rw [select_eq_spec, select_eq_spec]
+  unfold specSelect
+  rw [h.fmt, h.selectComplementary_eq, selectProgramme_congr h.keys]
+  cases wrappedPacks a.fmt with
+  | error e => rfl
+  | ok wps =>
+    simp only
+    cases selectComplementary a sel with
+    | error e => rfl
+    | ok ign =>
+      simp only
+      rw [h.specStates_eq]
+      show flatMapE (itemsOfState a') ((specStates a (selectProgramme a given) ign).map (renStateC ρ)) =
+        (flatMapE (itemsOfState a) (specStates a (selectProgramme a given) ign)).map (List.map (renItemC ρ))
+      rw [flatMapE_map]
+      exact flatMapE_map_comm fun st hst => h.itemsOfState (specStates_content_lt h hst)
+
+/-! ## re-numbering the audioProgrammes (declaration order) -/
+
+/-- `a'` is `a` with the audioProgrammes re-declared in another order: programme `p` of `a` is programme
+`ρ p` of `a'`; everything else unchanged. -/
+structure ProgRenamed (ρ : Nat → Nat) (a a' : Adm) : Prop where
+  objects : a'.objects = a.objects
+  contents : a'.contents = a.contents
+  fmt : a'.fmt = a.fmt
+  perm : a'.programmes.Perm a.programmes
+  prog : ∀ p, p < a.programmes.length → a'.prog (ρ p) = a.prog p
+  lt : ∀ p, p < a.programmes.length → ρ p < a.programmes.length
+  /-- audioProgramme ids are distinct -/
+  ids : (a.programmes.map (·.idKey)).Nodup
+
+def renStateP (ρ : Nat → Nat) (st : State) : State := { st with programme := st.programme.map ρ }
+def renItemP (ρ : Nat → Nat) (it : Item) : Item := { it with programme := it.programme.map ρ }
+
+namespace ProgRenamed
+variable {ρ : Nat → Nat} {a a' : Adm}
+
+theorem obj (h : ProgRenamed ρ a a') (i : Nat) : a'.obj i = a.obj i := by unfold Adm.obj; rw [h.objects]
+theorem cont (h : ProgRenamed ρ a a') (c : Nat) : a'.cont c = a.cont c := by unfold Adm.cont; rw [h.contents]
+theorem nprog (h : ProgRenamed ρ a a') : a'.programmes.length = a.programmes.length := h.perm.length_eq
+
+theorem selectComplementary_eq (h : ProgRenamed ρ a a') (sel : List Nat) :
+    selectComplementary a' sel = selectComplementary a sel := by
+  have hroots : compRoots a' = compRoots a := by
+    unfold compRoots; simp only [h.objects, h.obj]
+  have hg : compGroup a' = compGroup a := by
+    funext r; unfold compGroup; rw [h.obj]
+  unfold Earverif.Adm.selectComplementary compAllSelected
+  simp only [hroots, hg]
+
+theorem minByIdGo_some_ne_none : ∀ (l : List Programme) (i : Nat) (b : Nat × Nat), minByIdGo l i (some b) ≠ none := by
+  intro l
+  induction l with
+  | nil => intro i b; simp [minByIdGo]
+  | cons x xs ih => intro i b; obtain ⟨bi, bk⟩ := b; simp only [minByIdGo]; split <;> exact ih _ _
+
+theorem selectProgramme_none_eq_none_iff (a : Adm) : selectProgramme a none = none ↔ a.programmes = [] := by
+  rw [Earverif.Adm.selectProgramme_none]
+  unfold minById
+  cases a.programmes with
+  | nil => simp [minByIdGo]
+  | cons p ps =>
+    have : minByIdGo (p :: ps) 0 none = minByIdGo ps (0 + 1) (some (0, p.idKey)) := rfl
+    rw [this]
+    simp only [Option.map_eq_none_iff, reduceCtorEq, iff_false]
+    exact minByIdGo_some_ne_none _ _ _
+
+/-- the programme chosen without an explicit choice is the same element (lowest id), at its new position. -/
+theorem selectProgramme_none (h : ProgRenamed ρ a a') :
+    selectProgramme a' none = (selectProgramme a none).map ρ := by
+  have hids' : (a'.programmes.map (·.idKey)).Nodup := (h.perm.map _).nodup_iff.2 h.ids
+  cases hs : selectProgramme a none with
+  | none =>
+    have hnil := (selectProgramme_none_eq_none_iff a).1 hs
+    have hnil' : a'.programmes = [] := List.length_eq_zero_iff.1 (by rw [h.nprog, hnil]; rfl)
+    exact (selectProgramme_none_eq_none_iff a').2 hnil'
+  | some i =>
+    obtain ⟨hi, _⟩ := select_programme_lowest_id hs
+    cases hs' : selectProgramme a' none with
+    | none =>
+      exfalso
+      have hnil' := (selectProgramme_none_eq_none_iff a').1 hs'
+      have := h.nprog
+      rw [hnil'] at this
+      simp only [List.length_nil] at this
+      omega
+    | some i' =>
+      obtain ⟨hi', _⟩ := select_programme_lowest_id hs'
+      have he := select_programme_order_independent h.perm h.ids hs hs'
+      have he2 := h.prog i hi
+      simp only [Option.map_some, Option.some.injEq]
+      have hlt : ρ i < a'.programmes.length := by rw [h.nprog]; exact h.lt i hi
+      have hkey : (a'.programmes.map (·.idKey))[i']? = (a'.programmes.map (·.idKey))[ρ i]? := by
+        have e1 : a'.programmes[i']? = some (a'.prog i') := by
+          unfold Adm.prog; simp [List.getD_eq_getElem?_getD, List.getElem?_eq_getElem hi']
+        have e2 : a'.programmes[ρ i]? = some (a'.prog (ρ i)) := by
+          unfold Adm.prog; simp [List.getD_eq_getElem?_getD, List.getElem?_eq_getElem hlt]
+        simp only [List.getElem?_map, e1, e2, he, he2]
+      have hi'' : i' < (a'.programmes.map (·.idKey)).length := by simpa using hi'
+      exact (List.getElem?_inj hi'' hids').1 hkey
+
+theorem selectProgramme_eq (h : ProgRenamed ρ a a') (given : Option Nat) :
+    selectProgramme a' (given.map ρ) = (selectProgramme a given).map ρ := by
+  cases given with
+  | none => exact h.selectProgramme_none
+  | some p => rfl
+
+theorem specPaths_eq (h : ProgRenamed ρ a a') (ign : List Nat) (r : Nat) : specPaths a' ign r = specPaths a ign r := by
+  have : a'.subs = a.subs := by funext i; unfold Adm.subs; rw [h.obj]
+  unfold specPaths objectPathsFrom; rw [this, h.objects]
+
+theorem specStates_eq (h : ProgRenamed ρ a a') {prog : Option Nat} (hp : ∀ p, prog = some p → p < a.programmes.length)
+    (ign : List Nat) : specStates a' (prog.map ρ) ign = (specStates a prog ign).map (renStateP ρ) := by
+  have hroot : rootObjects a' = rootObjects a := by unfold rootObjects; rw [h.objects]
+  have hnp : a'.programmes = [] ↔ a.programmes = [] := by
+    rw [← List.length_eq_zero_iff, ← List.length_eq_zero_iff, h.nprog]
+  unfold specStates
+  simp only [hnp, h.objects]
+  split
+  · rfl
+  · cases prog with
+    | none =>
+      simp only [Option.map_none, hroot, h.specPaths_eq, List.map_flatMap, List.map_map]
+      rfl
+    | some p =>
+      simp only [Option.map_some, h.prog p (hp p rfl), h.cont, List.map_flatMap, List.map_map, h.specPaths_eq]
+      rfl
+
+theorem getAvs_eq (h : ProgRenamed ρ a a') {st : State} (hp : ∀ p, st.programme = some p → p < a.programmes.length) :
+    getAvs a' (renStateP ρ st) = getAvs a st := by
+  have hleaf : (renStateP ρ st).leaf a' = st.leaf a := by
+    unfold State.leaf renStateP; simp only [h.obj]
+  unfold getAvs
+  rw [hleaf]
+  cases st.leaf a with
+  | none => rfl
+  | some o =>
+    obtain ⟨pr, co, op⟩ := st
+    cases pr with
+    | none => cases co <;> simp only [renStateP, Option.map_none, h.cont]
+    | some p =>
+      have hpp := h.prog p (hp p rfl)
+      cases co <;> simp only [renStateP, Option.map_some, h.cont, hpp]
+
+theorem extraOf_eq (h : ProgRenamed ρ a a') {st : State} (hp : ∀ p, st.programme = some p → p < a.programmes.length)
+    (ch : Option Nat) (ad : Option Rat) : extraOf a' (renStateP ρ st) ch ad = extraOf a st ch ad := by
+  have hleaf : (renStateP ρ st).leaf a' = st.leaf a := by
+    unfold State.leaf renStateP; simp only [h.obj]
+  unfold extraOf
+  rw [h.getAvs_eq hp, hleaf, h.fmt]
+  obtain ⟨pr, co, op⟩ := st
+  cases pr with
+  | none => rfl
+  | some p => simp only [renStateP, Option.map_some, h.prog p (hp p rfl)]
+
+theorem getImportance_eq (h : ProgRenamed ρ a a') (st : State) (pp : List Nat) :
+    getImportance a' (renStateP ρ st) pp = getImportance a st pp := by
+  unfold getImportance renStateP
+  simp only [h.fmt, h.obj]
+
+theorem itemsOfPack (h : ProgRenamed ρ a a') {st : State} (hp : ∀ p, st.programme = some p → p < a.programmes.length)
+    (ap : AllocPack) :
+    itemsOfPack a' (renStateP ρ st) ap = (itemsOfPack a st ap).map (List.map (renItemP ρ)) := by
+  have hged : ∀ ppc ch, getExtraData a' (renStateP ρ st) ppc ch = getExtraData a st ppc ch := by
+    intro ppc ch; unfold getExtraData; simp only [h.fmt, h.extraOf_eq hp]
+  have hsingle : ∀ ty p ct, singleItem a' (renStateP ρ st) ty p ct = (singleItem a st ty p ct).map (renItemP ρ) := by
+    intro ty p ct
+    unfold singleItem
+    simp only [h.fmt, hged, h.getImportance_eq]
+    cases getPackFormatPath a.fmt p ct.1 with
+    | error e => rfl
+    | ok pp =>
+      simp only
+      cases getExtraData a st [(pp, ct.1)] (some ct.1) with
+      | error e => rfl
+      | ok ex => rfl
+  have hhoa : hoaItem a' (renStateP ρ st) ap = (hoaItem a st ap).map (renItemP ρ) := by
+    unfold hoaItem
+    simp only [h.fmt, hged, h.getImportance_eq]
+    cases mapE (hoaPathOf a.fmt ap.pack) ap.alloc with
+    | error e => rfl
+    | ok ppc =>
+      simp only
+      cases hoaMetaOf a.fmt ppc with
+      | error e => rfl
+      | ok hm =>
+        simp only
+        cases getExtraData a st ppc none with
+        | error e => rfl
+        | ok ex => rfl
+  unfold Earverif.Adm.itemsOfPack
+  simp only [h.fmt]
+  split
+  · exact mapE_map_comm fun ct _ => hsingle _ _ ct
+  · split
+    · rw [hhoa]
+      cases hoaItem a st ap <;> rfl
+    · rfl
+
+theorem itemsOfState (h : ProgRenamed ρ a a') {st : State} (hp : ∀ p, st.programme = some p → p < a.programmes.length) :
+    itemsOfState a' (renStateP ρ st) = (itemsOfState a st).map (List.map (renItemP ρ)) := by
+  have hprob : ∀ wps, allocProblem a' (renStateP ρ st) wps = allocProblem a st wps := by
+    intro wps; unfold allocProblem renStateP; simp only [h.fmt, h.obj]
+  have hmap : selectPackMapping a' (renStateP ρ st) = selectPackMapping a st := by
+    unfold selectPackMapping; simp only [h.fmt, hprob]
+  unfold Earverif.Adm.itemsOfState
+  rw [hmap]
+  cases selectPackMapping a st with
+  | error e => rfl
+  | ok packs => exact flatMapE_map_comm fun ap _ => h.itemsOfPack hp ap
+
+end ProgRenamed
+theorem specStates_programme {a : Adm} {prog : Option Nat} {ign : List Nat} {st : State}
+    (hst : st ∈ specStates a prog ign) : st.programme = none ∨ st.programme = prog := by
+  unfold specStates at hst
+  split at hst
+  · simp only [List.mem_singleton] at hst; subst hst; exact Or.inl rfl
+  · cases prog with
+    | none =>
+      simp only [List.mem_flatMap, List.mem_map] at hst
+      obtain ⟨_, _, _, _, rfl⟩ := hst
+      exact Or.inl rfl
+    | some p =>
+      simp only [List.mem_flatMap, List.mem_map] at hst
+      obtain ⟨_, _, _, _, _, _, rfl⟩ := hst
+      exact Or.inr rfl
+
+/-- **select_renumber_programmes**: re-declaring the audioProgrammes in another order (distinct ids; the
+explicitly chosen programme, if any, named by its new position) gives the same result — the same items in
+the same order with the programme index renamed, or the same error. -/
+theorem select_renumber_programmes {ρ : Nat → Nat} {a a' : Adm} (h : ProgRenamed ρ a a') (given : Option Nat)
+    (hgiven : ∀ p, given = some p → p < a.programmes.length) (sel : List Nat) :
+    selectRenderingItems a' (given.map ρ) sel =
+      (selectRenderingItems a given sel).map (List.map (renItemP ρ)) := by
+  have hsel : ∀ p, selectProgramme a given = some p → p < a.programmes.length := by
+    intro p hp
+    cases given with
+    | none => exact (select_programme_lowest_id hp).1
+    | some q => cases hp; exact hgiven _ rfl
+  rw [select_eq_spec, select_eq_spec]
+  unfold specSelect
+  rw [h.fmt, h.selectComplementary_eq, h.selectProgramme_eq]
+  cases wrappedPacks a.fmt with
+  | error e => rfl
+  | ok wps =>
+    simp only
+    cases selectComplementary a sel with
+    | error e => rfl
+    | ok ign =>
+      simp only
+      rw [h.specStates_eq hsel]
+      show flatMapE (itemsOfState a') ((specStates a (selectProgramme a given) ign).map (renStateP ρ)) =
+        (flatMapE (itemsOfState a) (specStates a (selectProgramme a given) ign)).map (List.map (renItemP ρ))
+      rw [flatMapE_map]
+      refine flatMapE_map_comm fun st hst => h.itemsOfState fun p hp => ?_
+      rcases specStates_programme hst with hn | hs
+      · rw [hn] at hp; cases hp
+      · rw [hs] at hp; exact hsel p hp
+
+
+/-! ### `rename` forms and non-vacuity -/
+
+/-- the audioContents re-declared in the order given by `ρ` (`ρinv` its inverse), programme references remapped. -/
+def renameContents (ρ ρinv : Nat → Nat) (a : Adm) : Adm :=
+  { a with
+    programmes := a.programmes.map fun p => { p with contents := p.contents.map ρ },
+    contents := (List.range a.contents.length).map fun j => a.cont (ρinv j) }
+
+theorem renameContents_renamed {ρ ρinv : Nat → Nat} {a : Adm} (hwf : a.refsInRange = true)
+    (hρ : ((List.range a.contents.length).map ρ).Perm (List.range a.contents.length))
+    (hinv : ∀ i, i < a.contents.length → ρinv (ρ i) = i) : ContRenamed ρ a (renameContents ρ ρinv a) := by
+  refine ⟨rfl, rfl, rfl, fun c hc => ?_, ?_⟩
+  · unfold Adm.cont renameContents
+    simp only
+    rw [getD_range_map _ _ (perm_lt hρ hc), hinv c hc]
+    rfl
+  · unfold Adm.refsInRange at hwf
+    simp only [Bool.and_eq_true, List.all_eq_true, decide_eq_true_eq] at hwf
+    obtain ⟨⟨⟨⟨⟨⟨⟨hp, _⟩, _⟩, _⟩, _⟩, _⟩, _⟩, _⟩ := hwf
+    exact hp
+
+/-- the audioProgrammes re-declared in the order given by `ρ` (`ρinv` its inverse). -/
+def renameProgrammes (ρinv : Nat → Nat) (a : Adm) : Adm :=
+  { a with programmes := (List.range a.programmes.length).map fun j => a.prog (ρinv j) }
+
+theorem range_map_getD {α : Type} (l : List α) (d : α) : (List.range l.length).map (fun i => l.getD i d) = l := by
+  apply List.ext_getElem
+  · simp
+  · intro i h1 h2
+    simp only [List.length_map, List.length_range] at h1
+    simp [List.getD_eq_getElem?_getD, List.getElem?_eq_getElem h1]
+
+theorem renameProgrammes_renamed {ρ ρinv : Nat → Nat} {a : Adm}
+    (hρ : ((List.range a.programmes.length).map ρ).Perm (List.range a.programmes.length))
+    (hρinv : ((List.range a.programmes.length).map ρinv).Perm (List.range a.programmes.length))
+    (hinv : ∀ i, i < a.programmes.length → ρinv (ρ i) = i)
+    (hids : (a.programmes.map (·.idKey)).Nodup) : ProgRenamed ρ a (renameProgrammes ρinv a) := by
+  refine ⟨rfl, rfl, rfl, ?_, fun p hp => ?_, fun p hp => perm_lt hρ hp, hids⟩
+  · have e : (renameProgrammes ρinv a).programmes = ((List.range a.programmes.length).map ρinv).map a.prog := by
+      simp [renameProgrammes, List.map_map, Function.comp_def]
+    rw [e]
+    refine (hρinv.map _).trans (List.Perm.of_eq ?_)
+    unfold Adm.prog
+    exact range_map_getD _ _
+  · unfold Adm.prog renameProgrammes
+    simp only
+    rw [getD_range_map _ _ (perm_lt hρ hp), hinv p hp]
+    rfl
+
+/-- **select_renumber_contents / _programmes** in `rename` form. -/
+theorem select_renumber_contents_rename {ρ ρinv : Nat → Nat} {a : Adm} (hwf : a.refsInRange = true)
+    (hρ : ((List.range a.contents.length).map ρ).Perm (List.range a.contents.length))
+    (hinv : ∀ i, i < a.contents.length → ρinv (ρ i) = i) (given : Option Nat) (sel : List Nat) :
+    selectRenderingItems (renameContents ρ ρinv a) given sel =
+      (selectRenderingItems a given sel).map (List.map (renItemC ρ)) :=
+  select_renumber_contents (renameContents_renamed hwf hρ hinv) given sel
+
+theorem select_renumber_programmes_rename {ρ ρinv : Nat → Nat} {a : Adm}
+    (hρ : ((List.range a.programmes.length).map ρ).Perm (List.range a.programmes.length))
+    (hρinv : ((List.range a.programmes.length).map ρinv).Perm (List.range a.programmes.length))
+    (hinv : ∀ i, i < a.programmes.length → ρinv (ρ i) = i)
+    (hids : (a.programmes.map (·.idKey)).Nodup) (given : Option Nat)
+    (hgiven : ∀ p, given = some p → p < a.programmes.length) (sel : List Nat) :
+    selectRenderingItems (renameProgrammes ρinv a) (given.map ρ) sel =
+      (selectRenderingItems a given sel).map (List.map (renItemP ρ)) :=
+  select_renumber_programmes (renameProgrammes_renamed hρ hρinv hinv hids) given hgiven sel
 
 /-! ## Non-vacuity: a concrete document satisfying the hypotheses -/
 
@@ -2873,5 +4363,132 @@ example : briefs (selectRenderingItems (renameFormats exM exMi exDoc) none []) =
     some [(some [0, 1, 3], [2], [some 1]), (some [0, 1, 3], [0], [none]),
           (some [0, 2, 3], [2], [some 1]), (some [0, 2, 3], [0], [none]),
           (some [4], [1], [some 0])] := by decide
+
+section NonVacuity2
+open Earverif.TrackSpec (meaning)
+
+/-! ### non-vacuity of the hypotheses of the declarative theorems -/
+
+example : multitreeOK exDoc.fmt = true := by decide
+example : wrappedNonempty exDoc.fmt = true := by decide
+example : AllocWF exDoc := allocWF_of_multitree (by decide) (by decide)
+example : AllocWF0 exDoc := allocWF0_of_multitree (by decide)
+
+/-- a channel listed twice in a pack, and a channel reachable through two pack paths, fail the multitree
+predicate (as they fail `_validate_pack_channel_multitree`); a pack loop too. -/
+def exPack (chs subs : List Nat) : Pack :=
+  { type := 1, channels := chs, subPacks := subs, importance := none, absDist := none,
+    normalization := none, nfcRefDist := none, screenRef := none }
+
+example : multitreeOK { exDoc.fmt with packs := [exPack [1, 1] []] } = false := by decide
+example : multitreeOK { exDoc.fmt with packs := [exPack [1] [1], exPack [1] []] } = false := by decide
+example : multitreeOK { exDoc.fmt with packs := [exPack [1] [1], exPack [2] [0]] } = false := by decide
+/-- a pack without channels passes the multitree predicate but not `wrappedNonempty`. -/
+example : multitreeOK { exDoc.fmt with packs := [exPack [] []] } = true ∧
+    wrappedNonempty { exDoc.fmt with packs := [exPack [] []] } = false := by decide
+
+/-- `itemsOfState_spec` applies: the per-state pipeline succeeds on the state of the shared sub-object. -/
+example : errOf (itemsOfState exDoc ⟨some 0, some 0, some [0, 1, 3]⟩) = none := by decide
+
+/-- A direct Matrix pack (pack 2: input pack 0 = channels 0, 1; output pack 1 = channel 2; one matrix channel 3
+with `outputChannelFormat` 2, gain 2 and coefficients `0.5 * ch0` and `ch1 delayed by 0 ms`), used by one
+object whose two tracks carry the input channels: `matrix_item_spec_meaning` / `select_eq_decl` apply. -/
+def exMat : Adm :=
+  { programmes := [], contents := [],
+    objects := [{ packs := [2], tracks := [some 0, some 1], subObjects := [], complementary := [], start := none,
+                  duration := none, gain := 1, mute := false, posOff := none, importance := none, avs := [] }],
+    fmt := {
+      packs := [exPack [0, 1] [], exPack [2] [],
+                { exPack [3] [] with type := 2, inputPack := some 0, outputPack := some 1 }],
+      channels := [{ type := 1, lowPass := none, highPass := none, blocks := [0], hoa := default },
+                   { type := 1, lowPass := none, highPass := none, blocks := [1], hoa := default },
+                   { type := 1, lowPass := none, highPass := none, blocks := [2], hoa := default },
+                   { type := 2, lowPass := none, highPass := none, blocks := [3], hoa := default,
+                     matrix := ⟨some 2, 2, [⟨0, some (1/2), none⟩, ⟨1, none, some 0⟩]⟩ }],
+      streamFormats := [], trackFormats := [],
+      trackUIDs := [⟨1, .channel 0, 2⟩, ⟨2, .channel 1, 2⟩] } }
+
+example : exMat.refsInRange = true := by decide
+example : multitreeOK exMat.fmt = true := by decide
+
+/-- the one selected item renders channel 2 of the output pack; the audio of its track spec on the two-frame
+input `[[1, 2], [3, 4]]` is `2 * (0.5 * track0 + track1)` = `[5, 11]`. -/
+example : (match selectRenderingItems exMat none [] with
+    | .ok [it] => it.kind == 1 && it.channels == [2] && it.packPaths == [[1]] &&
+        it.tracks.map (fun s => meaning 48000 2 s [[1, 2], [3, 4]]) == [[5, 11]]
+    | _ => false) = true := by decide +kernel
+
+/-- `exDoc` with the two track references of `o3` (one real, one silent) listed in the other order:
+`select_perm_own_refs` applies. -/
+def exDocT : Adm :=
+  { exDoc with objects := exDoc.objects.set 3 { exDoc.obj 3 with tracks := [none, some 1] } }
+
+example : OwnRefsPerm exDoc exDocT := by
+  refine ⟨rfl, rfl, rfl, rfl, fun i => ?_, fun i => ?_, fun i => ?_⟩
+  all_goals
+    match i with
+    | 0 => decide
+    | 1 => decide
+    | 2 => decide
+    | 3 => decide
+    | 4 => decide
+    | 5 => decide
+    | _ + 6 => simp [Adm.obj, exDoc, exDocT]
+
+example : briefs (selectRenderingItems exDocT none []) = briefs (selectRenderingItems exDoc none []) := by decide
+
+/-- `exDoc` with two contents and two programmes (ids not in declaration order). -/
+def exDoc2 : Adm :=
+  { exDoc with
+    programmes := [⟨0x1005, [1], some 0, []⟩, ⟨0x1002, [0, 1], none, []⟩],
+    contents := [⟨[0], []⟩, ⟨[4, 5], []⟩] }
+
+def exSwap (i : Nat) : Nat := if i = 0 then 1 else if i = 1 then 0 else i
+
+example : exDoc2.refsInRange = true := by decide
+example : ((List.range exDoc2.contents.length).map exSwap).Perm (List.range exDoc2.contents.length) := by decide
+example : ((List.range exDoc2.programmes.length).map exSwap).Perm (List.range exDoc2.programmes.length) := by decide
+example : ∀ i, i < 2 → exSwap (exSwap i) = i := by decide
+example : (exDoc2.programmes.map (·.idKey)).Nodup := by decide
+
+/-- programme 1 (lowest id) is chosen: contents 0 and 1; after swapping the contents the same items come
+out with the content index renamed; after swapping the programmes with the programme index renamed. -/
+example : (match selectRenderingItems exDoc2 none [] with
+    | .ok items => items.map (fun it => (it.programme, it.content, it.objPath))
+    | .error _ => []) =
+    [(some 1, some 0, some [0, 1, 3]), (some 1, some 0, some [0, 1, 3]), (some 1, some 0, some [0, 2, 3]),
+     (some 1, some 0, some [0, 2, 3]), (some 1, some 1, some [4])] := by decide +kernel
+example : (match selectRenderingItems (renameContents exSwap exSwap exDoc2) none [] with
+    | .ok items => items.map (fun it => (it.programme, it.content, it.objPath))
+    | .error _ => []) =
+    [(some 1, some 1, some [0, 1, 3]), (some 1, some 1, some [0, 1, 3]), (some 1, some 1, some [0, 2, 3]),
+     (some 1, some 1, some [0, 2, 3]), (some 1, some 0, some [4])] := by decide +kernel
+example : (match selectRenderingItems (renameProgrammes exSwap exDoc2) none [] with
+    | .ok items => items.map (fun it => (it.programme, it.content, it.objPath))
+    | .error _ => []) =
+    [(some 0, some 0, some [0, 1, 3]), (some 0, some 0, some [0, 1, 3]), (some 0, some 0, some [0, 2, 3]),
+     (some 0, some 0, some [0, 2, 3]), (some 0, some 1, some [4])] := by decide +kernel
+
+/-- `exDoc` where `o4` has an alternativeValueSet (label 7: gain 3) referenced from the programme: the
+hypothesis of `getAvs_unique` holds for the state of `o4`, and the item of `o4` carries gain 3. -/
+def exAvs : Adm :=
+  { exDoc with
+    programmes := [⟨0x1001, [0], some 0, [7]⟩],
+    objects := exDoc.objects.set 4 { exDoc.obj 4 with avs := [⟨7, some 3, none, none⟩] } }
+
+example : (avsRefs exAvs ⟨some 0, some 0, some [4]⟩).filterMap
+    (fun l => (exAvs.obj 4).avs.find? (·.label == l)) = [⟨7, some 3, none, none⟩] := by decide
+example : getAvs exAvs ⟨some 0, some 0, some [4]⟩ = some ⟨7, some 3, none, none⟩ := by decide
+example : (match selectRenderingItems exAvs none [] with
+    | .ok items => items.map (fun it => (it.objPath, it.extra.gain))
+    | .error _ => []) =
+    [(some [0, 1, 3], 1), (some [0, 1, 3], 1), (some [0, 2, 3], 1), (some [0, 2, 3], 1), (some [4], 3)] := by
+  decide +kernel
+
+/-- `minImp`: `None` loses against every number; the first of equal minima is returned. -/
+example : minImp [none, some 5, some 2, none, some 2] = some 2 ∧ minImp [none, none] = none ∧ minImp [] = none := by
+  decide
+
+end NonVacuity2
 
 end Earverif.Adm
